@@ -14,6 +14,11 @@ Outputs never contain floats: a chunk is named by its lineage (`g3[5,7]+4` = 3rd
 7 drawn since construction/reset, this chunk 4 samples) and compared bit-exactly, inside
 `impl_lines`, with the chunk a pristine object of that lineage produces (` DIFF@i` is appended on
 a difference).
+
+Words of an op beyond those the model knows (`next O n np`, `append Q G t d ext meta`, `pop Q n nodec`) name the
+spelling of the same call (NumPy integer, extend(), keywords, metadata, decrement=False); the model line drops
+them, the reference is built through the same spelling.  Queue parameters >= 100 select the grouped /
+keep_complete_waveforms=False variants of the fifo / interleaved kinds.
 """
 import copy
 import itertools
@@ -88,6 +93,9 @@ def clear_caches():
     return ok
 
 
+CHILD_TIMEOUT = int(os.environ.get('C10_CHILD_TIMEOUT', '30'))      # seconds of wall time per forked evaluation
+
+
 def in_child(fn, *args):
     """Run fn(*args) in a forked child (pristine copy of this process), return its result."""
     r, w = os.pipe()
@@ -96,6 +104,11 @@ def in_child(fn, *args):
         code = 0
         try:
             os.close(r)
+            # a library that no longer terminates on this input (e.g. two queues sharing their bookkeeping) must
+            # not hang the check: SIGALRM's default action ends the child, the parent reports the timeout
+            import signal
+            signal.signal(signal.SIGALRM, signal.SIG_DFL)
+            signal.alarm(CHILD_TIMEOUT)
             try:
                 data = pickle.dumps(('ok', fn(*args)))
             except BaseException as e:  # noqa
@@ -109,7 +122,11 @@ def in_child(fn, *args):
     os.close(w)
     with os.fdopen(r, 'rb') as f:
         data = f.read()
-    os.waitpid(pid, 0)
+    _, status = os.waitpid(pid, 0)
+    if not data:
+        why = (f'did not finish within {CHILD_TIMEOUT} s (killed)' if os.WIFSIGNALED(status)
+               and os.WTERMSIG(status) == 14 else f'ended without a result (wait status {status})')
+        raise RuntimeError(f'child {why}')
     kind, val = pickle.loads(data)
     if kind == 'err':
         raise RuntimeError('child failed: ' + val)
@@ -129,133 +146,376 @@ def pristine(fn, *args):
 # --------------------------------------------------------------------------
 
 class World:
-    """Parameter objects of one run of a history (arrays, calibrations): created once per
+    """Parameter objects of one run of a history (arrays, calibrations, dicts): created once per
     world, the *same* object is passed every time a spec mentions it."""
 
     def __init__(self, case):
         from psiaudio import calibration
 
         class StubCal(calibration.FlatCalibration):
-            def get_iir(self, fs, fl, fh, duration):
-                return np.array([0.5, 0.25, -0.125, 0.0625])
+            IIR = [0.5, 0.25, -0.125, 0.0625]
 
-        self.arrays = [np.array(a, dtype=np.double) for a in case.get('arrays', [])]
-        self.cal_unity = calibration.FlatCalibration.unity()
-        self.cal_stub = StubCal(0)
+            def get_iir(self, fs, fl, fh, duration):
+                return np.array(self.IIR)
+
+        class StubCal2(StubCal):
+            IIR = [0.5, -0.25, 0.125, 0.03125]
+
+        dts = case.get('adtypes') or []
+        self.arrays = []
+        for i, a in enumerate(case.get('arrays', [])):
+            dt = dts[i] if i < len(dts) and dts[i] else 'float64'
+            a = np.array(a, dtype=np.double)
+            self.arrays.append((a * 1000).astype(dt) if dt.startswith('int') else a.astype(dt))
+        # calibrations: [0] unity, [1] flat 6 dB, [2] frequency dependent
+        self.cals = [calibration.FlatCalibration.unity(), calibration.FlatCalibration(6.0),
+                     calibration.InterpCalibration([0.0, 100.0, 300.0, 500.0], [0.0, 3.0, -3.0, 6.0])]
+        self.stubs = [StubCal(0), StubCal2(0)]
+        self.cal_unity = self.cals[0]
+        self.cal_stub = self.stubs[0]
         self.wav = wav_dir()
+        self._shared = {}
+
+    def shared(self, name, make):
+        """A mutable parameter object (dict, array) that every mention of `name` in this world passes again."""
+        if name not in self._shared:
+            self._shared[name] = make()
+        return self._shared[name]
+
+
+def _half(x):
+    return x * 0.5
+
+
+def _neg(x):
+    return -x
+
+
+TRANSFORMS = {None: None, 'half': _half, 'neg': _neg}
+INT_ONLY = ('seed', 'ntaps', 'n', 'skip', 'offset', 'samples', 'x')
+
+
+def rep_value(v, rep, int_only=False):
+    """The same number in another representation: 'np' NumPy scalar, 'int' Python int for integral floats,
+    'flt' Python float for ints.  Parameters that must stay integers only ever become np.int64."""
+    if rep is None or v is None or isinstance(v, (str, bool)) or not isinstance(v, (int, float)):
+        return v
+    if rep == 'np':
+        return np.int64(v) if isinstance(v, int) else np.float64(v)
+    if int_only:
+        return v
+    if rep == 'int':
+        return int(v) if isinstance(v, float) and v == int(v) else v
+    if rep == 'flt':
+        return float(v) if isinstance(v, int) else v
+    return v
+
+
+def rep_fs(rep):
+    return {'np': np.float64(FS), 'int': int(FS)}.get(rep, FS)
 
 
 def build(spec, w):
-    """Construct the factory a spec describes (recursively)."""
+    """Construct the factory a spec describes (recursively).  Optional spec fields select non-default
+    keyword arguments; `rep` selects the representation of the numbers."""
     stim = _stim()
     t = spec['t']
+    rep = spec.get('rep')
+    fs = rep_fs(rep)
     sub = build(spec['in'], w) if 'in' in spec else None
+
+    def P(k, default=None):
+        return rep_value(spec.get(k, default), rep, k in INT_ONLY)
+
+    def cal(default=None):
+        i = spec.get('cal', default)
+        return None if i is None else w.cals[i]
+
+    def opt(**names):
+        """keyword arguments for the optional spec fields that are present"""
+        return {kw: P(k) for kw, k in names.items() if k in spec}
+
     if t == 'tone':
-        return stim.ToneFactory(FS, spec['f'], spec['level'], spec['phase'], spec['pol'])
+        kw = {'calibration': cal()} if 'cal' in spec else {}
+        if spec.get('kw'):
+            return stim.ToneFactory(fs=fs, frequency=P('f'), level=P('level'), phase=P('phase'), polarity=P('pol'), **kw)
+        return stim.ToneFactory(fs, P('f'), P('level'), P('phase'), P('pol'), **kw)
     if t == 'samtone':
-        return stim.SAMToneFactory(FS, spec['fc'], spec['fm'], spec['level'])
+        kw = opt(depth='depth', phase='phase', phase_lb='plb', phase_ub='pub', polarity='pol')
+        kw.update({k: spec[k] for k in ('eq_power', 'equalize') if k in spec})
+        if 'cal' in spec:
+            kw['calibration'] = cal()
+        return stim.SAMToneFactory(fs, P('fc'), P('fm'), P('level'), **kw)
     if t == 'silence':
-        return stim.SilenceFactory(spec['fill'])
+        return stim.SilenceFactory(fill_value=P('fill')) if spec.get('kw') else stim.SilenceFactory(P('fill'))
     if t == 'square':
-        return stim.SquareWaveFactory(FS, spec['level'], spec['f'], spec['duty'])
+        return stim.SquareWaveFactory(fs, P('level'), P('f'), P('duty'))
     if t == 'bbn':
-        return stim.BroadbandNoiseFactory(FS, spec['level'], seed=spec['seed'], polarity=spec['pol'])
-    if t == 'bln':
-        return stim.BandlimitedNoiseFactory(FS, spec['seed'], spec['level'], spec['fl'], spec['fh'],
-                                            spec['rolloff'], spec['pa'], spec['sa'])
-    if t == 'blneq':
-        return stim.BandlimitedNoiseFactory(FS, spec['seed'], spec['level'], spec['fl'], spec['fh'],
-                                            spec['rolloff'], spec['pa'], spec['sa'], equalize=True,
-                                            calibration=w.cal_stub)
+        kw = {'calibration': cal()} if 'cal' in spec else {}
+        if spec.get('kw'):      # seed given positionally
+            return stim.BroadbandNoiseFactory(fs, P('level'), P('seed'), False, P('pol'), **kw)
+        return stim.BroadbandNoiseFactory(fs, P('level'), seed=P('seed'), polarity=P('pol'), **kw)
+    if t in ('bln', 'blneq'):
+        kw = opt(polarity='pol')
+        if 'dis' in spec:
+            kw['discard_initial_samples'] = spec['dis']
+        if t == 'blneq':
+            kw.update(equalize=True, calibration=w.stubs[spec.get('cal', 0)])
+        elif 'cal' in spec:
+            kw['calibration'] = cal()
+        return stim.BandlimitedNoiseFactory(fs, P('seed'), P('level'), P('fl'), P('fh'), P('rolloff'), P('pa'),
+                                            P('sa'), **kw)
     if t == 'fir':
-        return stim.BandlimitedFIRNoiseFactory(FS, spec['fl'], spec['fh'], spec['level'], ntaps=spec['ntaps'],
-                                               seed=spec['seed'], calibration=w.cal_unity)
+        kw = opt(polarity='pol', max_correction='maxc')
+        kw.update({k: spec[k] for k in ('window', 'equalize') if k in spec})
+        return stim.BandlimitedFIRNoiseFactory(fs, P('fl'), P('fh'), P('level'), ntaps=P('ntaps'), seed=P('seed'),
+                                               calibration=cal(0), **kw)
     if t == 'shaped':
-        gains = {0: -20.0, spec['f1']: 0.0, spec['f2']: 0.0, FS / 2: -20.0}
-        return stim.ShapedNoiseFactory(FS, spec['level'], gains, ntaps=spec['ntaps'], seed=spec['seed'])
+        # one dict object per (world, value): the library must leave it as it found it
+        gains = w.shared('gains' + canon([spec['f1'], spec['f2'], rep]),
+                         lambda: {0: -20.0, P('f1'): 0.0, P('f2'): 0.0, FS / 2: -20.0})
+        kw = opt(polarity='pol')
+        kw.update({k: spec[k] for k in ('window',) if k in spec})
+        if 'cal' in spec:
+            kw['calibration'] = cal()
+        return stim.ShapedNoiseFactory(fs, P('level'), gains, ntaps=P('ntaps'), seed=P('seed'), **kw)
     if t == 'fixed':
-        return stim.FixedWaveform(FS, w.arrays[spec['w']])
+        return stim.FixedWaveform(fs, w.arrays[spec['w']])
     if t == 'chirp':
-        return stim.ChirpFactory(FS, spec['f0'], spec['f1'], spec['dur'], spec['level'], None, window=spec['window'])
+        kw = opt(max_correction='maxc')
+        kw.update({k: spec[k] for k in ('equalize',) if k in spec})
+        return stim.ChirpFactory(fs, P('f0'), P('f1'), P('dur'), P('level'), cal(), window=spec['window'], **kw)
     if t == 'click':
-        return stim.ClickFactory(FS, spec['dur'], spec['level'], spec['pol'], w.cal_unity)
+        return stim.ClickFactory(fs, P('dur'), P('level'), P('pol'), cal(0))
     if t == 'blclick':
-        return stim.BandlimitedClickFactory(FS, spec['flb'], spec['fub'], spec['window'], spec['level'])
+        kw = opt(max_correction='maxc')
+        kw.update({k: spec[k] for k in ('equalize',) if k in spec})
+        if 'cal' in spec:
+            kw['calibration'] = cal()
+        return stim.BandlimitedClickFactory(fs, P('flb'), P('fub'), P('window'), P('level'), **kw)
     if t == 'wav':
-        return stim.WavFileFactory(FS, os.path.join(w.wav, spec['file']), normalization=spec['norm'])
+        path = os.path.join(w.wav, spec['file'])
+        if 'level' in spec:
+            return stim.WavFileFactory(fs, path, P('level'), cal(), normalization=spec['norm'])
+        return stim.WavFileFactory(fs, path, normalization=spec['norm'])
     if t == 'gate':
-        return stim.GateFactory(FS, spec['start'], spec['dur'], sub)
+        if spec.get('kw'):
+            return stim.GateFactory(fs=fs, start_time=P('start'), duration=P('dur'), input_factory=sub)
+        return stim.GateFactory(fs, P('start'), P('dur'), sub)
     if t == 'env':
-        return stim.EnvelopeFactory(spec['window'], FS, spec['dur'], spec['rise'], sub, spec['start'])
+        if 'tr' in spec:
+            return stim.EnvelopeFactory(spec['window'], fs, P('dur'), P('rise'), sub, start_time=P('start'),
+                                        transform=TRANSFORMS[spec['tr']])
+        return stim.EnvelopeFactory(spec['window'], fs, P('dur'), P('rise'), sub, P('start'))
     if t == 'cos2':
-        return stim.Cos2EnvelopeFactory(FS, spec['dur'], spec['rise'], sub, spec['start'])
+        if spec.get('kw'):
+            return stim.Cos2EnvelopeFactory(fs, P('dur'), P('rise'), sub, start_time=P('start'))
+        return stim.Cos2EnvelopeFactory(fs, P('dur'), P('rise'), sub, P('start'))
     if t == 'sam':
-        return stim.SAMEnvelopeFactory(FS, spec['depth'], spec['fm'], spec['delay'], spec['dir'], sub)
+        kw = {'onset_method': spec['onset']} if 'onset' in spec else {}
+        return stim.SAMEnvelopeFactory(fs, P('depth'), P('fm'), P('delay'), P('dir'), sub, **kw)
     if t == 'sqenv':
-        return stim.SquareWaveEnvelopeFactory(FS, spec['depth'], spec['fm'], spec['duty'], None, sub, spec['alpha'])
+        if spec.get('kw'):
+            return stim.SquareWaveEnvelopeFactory(fs, P('depth'), P('fm'), P('duty'), None, sub, alpha=P('alpha'))
+        return stim.SquareWaveEnvelopeFactory(fs, P('depth'), P('fm'), P('duty'), None, sub, P('alpha'))
     if t == 'notch':
-        return stim.NotchFilterFactory(FS, spec['f'], spec['q'], sub)
+        return stim.NotchFilterFactory(fs, P('f'), P('q'), sub)
     if t == 'repeat':
-        return stim.RepeatFactory(FS, spec['n'], spec['skip'], spec['rate'], spec['delay'], sub)
+        return stim.RepeatFactory(fs, P('n'), P('skip'), P('rate'), P('delay'), sub)
     raise ValueError(f'unknown spec type {t}')
 
 
 def invoke(kd, w):
-    """Call a memoised function exactly in the argument form named by the key descriptor."""
+    """Call a stimulus function exactly in the argument form named by the key descriptor (`form` = spelling of
+    the call, `rep` = representation of the numbers).  `f:<name>` are the plain (not memoised) functions."""
     stim = _stim()
     fn, form, a = kd['fn'], kd['form'], kd['a']
+    rep = kd.get('rep')
+    fs = rep_fs(rep)
+    a = {k: rep_value(v, rep, k in INT_ONLY) for k, v in a.items()}
     if fn == 'envelope':
         if form == 'pos':      # the form cos2envelope uses
-            return stim.envelope(a['window'], FS, a['dur'], a['rise'], a['offset'], a['start'], a['samples'])
+            return stim.envelope(a['window'], fs, a['dur'], a['rise'], a['offset'], a['start'], a['samples'])
         if form == 'kw':       # the form EnvelopeFactory.next uses
-            return stim.envelope(window=a['window'], fs=FS, duration=a['dur'], rise_time=a['rise'],
-                                 offset=a['offset'], start_time=a['start'], samples=a['samples'], transform=None)
+            return stim.envelope(window=a['window'], fs=fs, duration=a['dur'], rise_time=a['rise'],
+                                 offset=a['offset'], start_time=a['start'], samples=a['samples'],
+                                 transform=TRANSFORMS[a.get('tr')])
         if form == 'ramped':   # the form ramped_tone uses
-            return stim.envelope(window=a['window'], fs=FS, rise_time=a['rise'], duration=a['dur'])
+            return stim.envelope(window=a['window'], fs=fs, rise_time=a['rise'], duration=a['dur'])
         # two spellings that give the SAME value to DIFFERENT optional parameters
         if form == 'pos_off':
-            return stim.envelope(a['window'], FS, a['dur'], a['rise'], a['x'])
+            return stim.envelope(a['window'], fs, a['dur'], a['rise'], a['x'])
         if form == 'kw_start':
-            return stim.envelope(a['window'], FS, a['dur'], a['rise'], start_time=a['x'])
+            return stim.envelope(a['window'], fs, a['dur'], a['rise'], start_time=a['x'])
+        if form == 'pos_tr':   # transform given positionally
+            return stim.envelope(a['window'], fs, a['dur'], a['rise'], a['offset'], a['start'], a['samples'],
+                                 TRANSFORMS[a.get('tr')])
     if fn == 'cos2envelope':
         if form == 'pos':
-            return stim.cos2envelope(FS, a['dur'], a['rise'], a['offset'], a['start'], a['samples'])
+            return stim.cos2envelope(fs, a['dur'], a['rise'], a['offset'], a['start'], a['samples'])
         if form == 'short':
-            return stim.cos2envelope(FS, a['dur'], a['rise'])
+            return stim.cos2envelope(fs, a['dur'], a['rise'])
         if form == 'pos_off':
-            return stim.cos2envelope(FS, a['dur'], a['rise'], a['x'])
+            return stim.cos2envelope(fs, a['dur'], a['rise'], a['x'])
         if form == 'kw_samples':
-            return stim.cos2envelope(FS, a['dur'], a['rise'], samples=a['x'])
-    if fn == '_sam_envelope':  # the form SAMEnvelopeFactory.env / sam_envelope use
-        return stim._sam_envelope(a['offset'], a['samples'], FS, a['depth'], a['fm'], a['delay'],
-                                  stim.sam_eq_phase(a['delay'], a['depth'], 1), stim.sam_eq_power(a['depth']))
+            return stim.cos2envelope(fs, a['dur'], a['rise'], samples=a['x'])
+        if form == 'kw':
+            return stim.cos2envelope(fs=fs, duration=a['dur'], rise_time=a['rise'], offset=a['offset'],
+                                     start_time=a['start'], samples=a['samples'])
+    if fn == '_sam_envelope':
+        if form == 'eq':       # the form SAMEnvelopeFactory.env / sam_envelope use
+            return stim._sam_envelope(a['offset'], a['samples'], fs, a['depth'], a['fm'], a['delay'],
+                                      stim.sam_eq_phase(a['delay'], a['depth'], 1), stim.sam_eq_power(a['depth']))
+        if form == 'pi':       # SAMEnvelopeFactory(onset_method='silence_transition')
+            return stim._sam_envelope(a['offset'], a['samples'], fs, a['depth'], a['fm'], a['delay'],
+                                      np.pi, stim.sam_eq_power(a['depth']))
+        if form == 'kw':
+            return stim._sam_envelope(offset=a['offset'], samples=a['samples'], fs=fs, depth=a['depth'], fm=a['fm'],
+                                      delay=a['delay'], eq_phase=stim.sam_eq_phase(a['delay'], a['depth'], 1),
+                                      eq_power=stim.sam_eq_power(a['depth']))
     if fn == 'sam_envelope':
-        return stim.sam_envelope(a['offset'], a['samples'], FS, a['depth'], a['fm'], a['delay'], True)
+        if form == 'pos':
+            return stim.sam_envelope(a['offset'], a['samples'], fs, a['depth'], a['fm'], a['delay'], True)
+        if form == 'kw_eq':
+            return stim.sam_envelope(a['offset'], a['samples'], fs, a['depth'], a['fm'], a['delay'], equalize=True)
+        if form == 'kw':
+            return stim.sam_envelope(offset=a['offset'], samples=a['samples'], fs=fs, depth=a['depth'], fm=a['fm'],
+                                     delay=a['delay'], equalize=True)
     if fn == 'sam_eq_power':
-        return stim.sam_eq_power(a['depth'])
+        return stim.sam_eq_power(depth=a['depth']) if form == 'kw' else stim.sam_eq_power(a['depth'])
     if fn == 'sam_eq_phase':
+        if form == 'kw':
+            return stim.sam_eq_phase(delay=a['delay'], depth=a['depth'], direction=a['dir'])
+        if form == 'kw_dir':
+            return stim.sam_eq_phase(a['delay'], a['depth'], direction=a['dir'])
         return stim.sam_eq_phase(a['delay'], a['depth'], a['dir'])
-    if fn == 'blfilter':       # the form BandlimitedNoiseFactory.__init__ uses
+    if fn == 'blfilter':
         fl, fh, ro = a['fl'], a['fh'], a['rolloff']
-        return stim._calculate_bandlimited_noise_filter(FS, fl, fh, fl * (2 ** -ro), fh * (2 ** ro), a['pa'], a['sa'])
+        fls, fhs = fl * (2.0 ** -ro), fh * (2.0 ** ro)
+        if form == 'kw':
+            return stim._calculate_bandlimited_noise_filter(fs, fl, fh, fls, fhs, passband_attenuation=a['pa'],
+                                                            stopband_attenuation=a['sa'])
+        if form == 'allkw':
+            return stim._calculate_bandlimited_noise_filter(
+                fs=fs, fl=fl, fh=fh, fls=fls, fhs=fhs, passband_attenuation=a['pa'], stopband_attenuation=a['sa'])
+        # 'pos': the form BandlimitedNoiseFactory.__init__ uses
+        return stim._calculate_bandlimited_noise_filter(fs, fl, fh, fls, fhs, a['pa'], a['sa'])
     if fn == 'bliir':
-        return stim._calculate_bandlimited_noise_iir(FS, w.cal_stub, a['fl'], a['fh'])
-    if fn == 'load_wav':       # the form WavFileFactory.waveform uses
-        return stim.load_wav(FS, os.path.join(w.wav, a['file']), None, None, normalization=a['norm'])
+        cal = w.stubs[kd['a'].get('cal', 0)]
+        if form == 'kw':
+            return stim._calculate_bandlimited_noise_iir(fs, calibration=cal, fl=a['fl'], fh=a['fh'])
+        return stim._calculate_bandlimited_noise_iir(fs, cal, a['fl'], a['fh'])
+    if fn == 'load_wav':
+        path = os.path.join(w.wav, a['file'])
+        norm = a['norm']
+        if form == 'factory':  # the form WavFileFactory.waveform uses
+            if 'level' in a:
+                return stim.load_wav(fs, path, a['level'], w.cals[kd['a']['cal']], normalization=norm)
+            return stim.load_wav(fs, path, None, None, normalization=norm)
+        if form == 'short':    # all defaults (normalization=None)
+            return stim.load_wav(fs, path)
+        if form == 'kwnorm':
+            return stim.load_wav(fs, path, normalization=norm)
+        if form == 'posnorm':
+            return stim.load_wav(fs, path, None, None, norm)
+        if form == 'path':     # pathlib.Path instead of str
+            import pathlib
+            return stim.load_wav(fs, pathlib.Path(path), normalization=norm)
+        if form == 'allkw':
+            return stim.load_wav(fs=fs, filename=path, level=None, calibration=None, normalization=norm)
+    if fn.startswith('f:'):
+        return invoke_plain(stim, fn[2:], form, a, fs, w, kd)
     raise ValueError(f'unknown key {fn}/{form}')
+
+
+PLAIN = ('tone', 'sam_tone', 'square_wave', 'broadband_noise', 'notch_noise', 'bandlimited_noise',
+         'bandlimited_fir_noise', 'shaped_noise', 'chirp', 'bandlimited_click', 'repeat', 'ramped_tone', 'cos2ramp')
+
+
+def invoke_plain(stim, name, form, a, fs, w, kd):
+    """The function forms of the stimuli: results must depend on the arguments only as well."""
+    kwf = form == 'kw'
+    if name == 'tone':
+        if kwf:
+            return stim.tone(fs=fs, frequency=a['f'], level=a['level'], phase=a['phase'], polarity=a['pol'],
+                             samples=a['samples'], offset=a['offset'])
+        return stim.tone(fs, a['f'], a['level'], a['phase'], a['pol'], duration=a['dur'])
+    if name == 'sam_tone':
+        if kwf:
+            return stim.sam_tone(fs=fs, fc=a['fc'], fm=a['fm'], level=a['level'], polarity=a['pol'],
+                                 samples=a['samples'], offset=a['offset'], eq_power=False)
+        return stim.sam_tone(fs, a['fc'], a['fm'], a['level'], duration=a['dur'])
+    if name == 'square_wave':
+        if kwf:
+            return stim.square_wave(fs=fs, offset=a['offset'], samples=a['samples'], depth=a['depth'], fm=a['fm'],
+                                    duty_cycle=a['duty'], alpha=a['alpha'])
+        return stim.square_wave(fs, a['offset'], a['samples'], a['depth'], a['fm'], a['duty'], a['alpha'])
+    if name == 'broadband_noise':
+        if kwf:
+            return stim.broadband_noise(fs=fs, level=a['level'], duration=a['dur'], seed=a['seed'], polarity=a['pol'],
+                                        calibration=w.cals[1])
+        return stim.broadband_noise(fs, a['level'], a['dur'], a['seed'], False, a['pol'])
+    if name == 'notch_noise':
+        if kwf:
+            return stim.notch_noise(fs=fs, notch_frequency=a['f'], q=1.33, level=a['level'], duration=a['dur'],
+                                    seed=a['seed'], polarity=a['pol'])
+        return stim.notch_noise(fs, a['f'], 1.33, a['level'], a['dur'], a['seed'])
+    if name == 'bandlimited_noise':
+        if kwf:
+            return stim.bandlimited_noise(fs=fs, level=a['level'], fl=a['fl'], fh=a['fh'], duration=a['dur'],
+                                          stopband_attenuation=a['sa'], polarity=a['pol'], seed=a['seed'])
+        return stim.bandlimited_noise(fs, a['level'], a['fl'], a['fh'], a['dur'], 1, 1, a['sa'], False, a['pol'],
+                                      a['seed'])
+    if name == 'bandlimited_fir_noise':
+        return stim.bandlimited_fir_noise(fs, a['level'], a['fl'], a['fh'], a['dur'], ntaps=a['ntaps'],
+                                          seed=a['seed'], polarity=a['pol'], calibration=w.cals[2 if kwf else 0],
+                                          equalize=kwf)
+    if name == 'shaped_noise':
+        gains = w.shared('fgains' + canon([kd['a']['f1'], kd.get('rep')]),
+                         lambda: {0: -20.0, a['f1']: 0.0, 300.0: 0.0, FS / 2: -20.0})
+        if kwf:
+            return stim.shaped_noise(fs=fs, level=a['level'], gains=gains, duration=a['dur'], ntaps=a['ntaps'],
+                                     window='hamming', polarity=a['pol'], seed=a['seed'])
+        return stim.shaped_noise(fs, a['level'], gains, a['dur'], a['ntaps'], 'hann', a['pol'], a['seed'])
+    if name == 'chirp':
+        if kwf:
+            return stim.chirp(fs=fs, start_frequency=a['f0'], end_frequency=a['f1'], duration=a['dur'],
+                              level=a['level'], calibration=w.cals[2], window='hann', equalize=True,
+                              max_correction=a['maxc'])
+        return stim.chirp(fs, a['f0'], a['f1'], a['dur'], a['level'])
+    if name == 'bandlimited_click':
+        if kwf:
+            return stim.bandlimited_click(fs=fs, flb=a['flb'], fub=a['fub'], window=a['window'], level=a['level'],
+                                          calibration=w.cals[2], equalize=True, max_correction=a['maxc'])
+        return stim.bandlimited_click(fs, a['flb'], a['fub'], a['window'], a['level'])
+    if name == 'repeat':
+        wave = w.shared('wave' + canon(kd['a']['wave']), lambda: np.array(kd['a']['wave'], dtype=np.double))
+        if kwf:
+            return stim.repeat(waveform=wave, fs=fs, n=a['n'], skip_n=a['skip'], rate=a['rate'], delay=a['delay'])
+        return stim.repeat(wave, fs, a['n'], a['skip'], a['rate'], a['delay'])
+    if name == 'ramped_tone':
+        if kwf:
+            return stim.ramped_tone(fs=fs, frequency=a['f'], level=a['level'], duration=a['dur'], rise_time=a['rise'],
+                                    window=a['window'], phase=a['phase'], calibration=w.cals[1])
+        return stim.ramped_tone(fs, a['f'], a['level'], a['dur'], a['rise'], a['window'])
+    if name == 'cos2ramp':
+        return stim.cos2ramp(m=a['samples']) if kwf else stim.cos2ramp(a['samples'])
+    raise ValueError(f'unknown function {name}')
 
 
 def inner_key(kd):
     """Key descriptor of the memoised call whose result object a wrapper returns, else None."""
     fn, form, a = kd['fn'], kd['form'], kd['a']
+    rep = {'rep': kd['rep']} if kd.get('rep') else {}
     if fn == 'cos2envelope':
-        if form == 'pos':
-            return {'fn': 'envelope', 'form': 'pos', 'a': dict(a, window='cosine-squared')}
-        return {'fn': 'envelope', 'form': 'pos',
-                'a': {'window': 'cosine-squared', 'dur': a['dur'], 'rise': a['rise'], 'offset': 0, 'start': 0,
-                      'samples': 'auto'}}
+        if form in ('pos', 'kw'):
+            return dict({'fn': 'envelope', 'form': 'pos', 'a': dict(a, window='cosine-squared')}, **rep)
+        return dict({'fn': 'envelope', 'form': 'pos',
+                     'a': {'window': 'cosine-squared', 'dur': a['dur'], 'rise': a['rise'],
+                           'offset': a['x'] if form == 'pos_off' else 0, 'start': 0,
+                           'samples': a['x'] if form == 'kw_samples' else 'auto'}}, **rep)
     if fn == 'sam_envelope':
-        return {'fn': '_sam_envelope', 'form': 'eq', 'a': dict(a)}
+        return dict({'fn': '_sam_envelope', 'form': 'eq', 'a': dict(a)}, **rep)
     return None
 
 
@@ -272,20 +532,26 @@ def comps(res):
     return []
 
 
+def scalar_repr(x):
+    if isinstance(x, (int, float, np.integer, np.floating)) and not isinstance(x, bool):
+        return repr(float(x))
+    return repr(x)
+
+
 def freeze(res):
     """Immutable picture of a result for later comparison."""
     if isinstance(res, np.ndarray):
         return ('arr', [np.array(res, copy=True)])
     if isinstance(res, tuple):
         return ('tup', [np.array(c, copy=True) for c in res if isinstance(c, np.ndarray)])
-    return ('val', repr(res))
+    return ('val', scalar_repr(res))
 
 
 def dirty_positions(res, ref):
     """'clean' or 'dirty c.i,...' — where the result differs from the pristine value."""
     kind, rv = ref
     if kind == 'val':
-        return 'clean' if repr(res) == rv else 'dirty value'
+        return 'clean' if scalar_repr(res) == rv else 'dirty value'
     cs = comps(res)
     if len(cs) != len(rv):
         return 'dirty arity'
@@ -300,6 +566,8 @@ def dirty_positions(res, ref):
 
 def pack(x):
     """Bit-exact picture of a returned chunk (or of the exception that replaced it)."""
+    if isinstance(x, BuildFailed):
+        return ('exc', 'build:' + str(x))
     if isinstance(x, BaseException):
         return ('exc', type(x).__name__)
     x = np.asarray(x)
@@ -345,21 +613,94 @@ QUEUE_KINDS = ('fifo', 'inter', 'blocked', 'brand')
 
 def make_queue(kind, param):
     from psiaudio import queue as Q
-    if kind == 'fifo':
-        return Q.FIFOSignalQueue(fs=FS)
-    if kind == 'inter':
+    if kind == 'fifo':      # param >= 100: the grouped variant with group_size = param - 100
+        if param >= 100:
+            return Q.GroupedFIFOSignalQueue(param - 100, fs=FS)
+        return Q.FIFOSignalQueue(FS) if param == 1 else Q.FIFOSignalQueue(fs=FS)
+    if kind == 'inter':     # param >= 100: keep_complete_waveforms at its non-default value
+        if param >= 100:
+            return Q.InterleavedFIFOSignalQueue(keep_complete_waveforms=False, fs=FS)
         return Q.InterleavedFIFOSignalQueue(fs=FS)
     if kind == 'blocked':
         return Q.BlockedFIFOSignalQueue(fs=FS)
     if kind == 'brand':
+        if param % 2:
+            return Q.BlockedRandomSignalQueue(np.int64(param), fs=FS)
         return Q.BlockedRandomSignalQueue(seed=param, fs=FS)
     raise ValueError(kind)
+
+
+def do_append(q, src, t, d, ex):
+    """queue.append / queue.extend of one source; `ex` names the spelling of the call (same meaning)."""
+    delays = d / FS
+    if 'tnp' in ex:
+        t = np.int64(t)
+    if 'none' in ex and d == 0:
+        delays = None
+    if 'cyc' in ex:
+        delays = itertools.cycle([d / FS])
+    kw = {}
+    if 'meta' in ex:
+        kw = {'duration': 0.05, 'metadata': {'tag': int(t), 'l': [1, 2]}}
+    if 'ext' in ex:
+        kw = {k: [v] for k, v in kw.items()}
+        if delays is None:      # scalars are broadcast by extend
+            return q.extend((src,), t, None, **kw)
+        return q.extend([src], [t], delays=[d / FS], **kw)
+    if 'kw' in ex:
+        return q.append(source=src, trials=t, delays=delays, **kw)
+    if 'pos' in ex:
+        return q.append(src, t, delays, *([kw['duration'], kw['metadata']] if kw else []))
+    return q.append(src, t, delays=delays, **kw)
+
+
+def do_pop(q, n, ex):
+    if 'np' in ex:
+        n = np.int64(n)
+    if 'nodec' in ex:
+        return q.pop_buffer(n, decrement=False)
+    if 'kw' in ex:
+        return q.pop_buffer(samples=n, decrement=True)
+    return q.pop_buffer(n)
+
+
+class BuildFailed(Exception):
+    pass
+
+
+class Broken:
+    """Stands for a factory whose constructor raised: every draw reports that exception."""
+
+    def __init__(self, e):
+        self.name = type(e).__name__
+
+    def next(self, n):
+        raise BuildFailed(self.name)
+
+    def reset(self):
+        pass
+
+    def get_duration(self):
+        return 0.01
+
+    def is_complete(self):
+        return False
+
+    def n_samples_remaining(self):
+        raise BuildFailed(self.name)
+
+
+def build_or_broken(spec, w):
+    try:
+        return build(spec, w)
+    except Exception as e:  # noqa
+        return Broken(e)
 
 
 def eval_gen(case, v):
     """Pristine object of lineage v (fresh world); returns (object, last chunk or exception)."""
     w = World(case)
-    obj = build(case['specs'][v[1]], w)
+    obj = build_or_broken(case['specs'][v[1]], w)
     out = None
     for n in v[2]:
         try:
@@ -369,7 +710,21 @@ def eval_gen(case, v):
     return obj, out, w
 
 
-def eval_queue(case, v):
+def eval_gen_all(case, v):
+    """One pristine object of lineage v: the packed chunk of every draw (= the reference of every prefix of v)."""
+    obj = build_or_broken(case['specs'][v[1]], World(case))
+    outs = []
+    for n in v[2]:
+        try:
+            out = obj.next(n)
+        except Exception as e:  # noqa
+            out = e
+        outs.append(pack(out))      # packed at once: nothing that happens later can change it
+    return outs
+
+
+def eval_queue(case, v, outs=None):
+    """One pristine queue of lineage v; `outs` collects the packed buffer of every pop."""
     w = World(case)
     q = make_queue(v[1], v[2])
     out = None
@@ -377,18 +732,40 @@ def eval_queue(case, v):
         try:
             if e[0] == 'a':
                 src, _, _ = eval_gen(case, e[1])
-                q.append(src, e[2], delays=e[3] / FS)
+                do_append(q, src, e[2], e[3], e[4])
             elif e[0] == 'w':     # e[4]: the caller had overwritten its array before appending it
-                q.append(np.full_like(w.arrays[e[1]], POISON) if e[4] else w.arrays[e[1]], e[2], delays=e[3] / FS)
+                do_append(q, np.full_like(w.arrays[e[1]], POISON) if e[4] else w.arrays[e[1]], e[2], e[3], e[5])
             else:
-                out = q.pop_buffer(e[1])
+                out = do_pop(q, e[1], e[2])
         except Exception as ex:  # noqa
             out = ex
+        if e[0] == 'p' and outs is not None:
+            outs.append(pack(out))
     return out
 
 
 def _ref_eval(kind, case, v):
-    return pack(eval_gen(case, v)[1]) if kind == 'g' else pack(eval_queue(case, v))
+    # All children of the pristine interpreter inherit one global RNG state: make the state under which the history
+    # runs differ from the one under which references are computed (neither may matter).
+    import random
+    np.random.seed(0xC10 if kind == 'h' else 0x5EED)
+    random.seed(0xC10 if kind == 'h' else 0x5EED)
+    if kind == 'k':     # v: key descriptor of a stimulus-function call
+        return freeze(invoke(v, World(case)))
+    if kind == 'K':     # v: several key descriptors, each evaluated on emptied memo tables
+        out = []
+        for kd in v:
+            if not clear_caches():
+                return None     # memo implementation not recognised: the caller asks key by key
+            out.append(freeze(invoke(kd, World(case))))
+        return out
+    if kind == 'g':
+        return eval_gen_all(case, v)
+    if kind == 'h':     # v: (which ops are malformed, references of the called keys)
+        return play(case, v[0], v[1])
+    outs = []
+    eval_queue(case, v, outs)
+    return outs
 
 
 _ZYG = None     # (pid of the process that started it, Popen)
@@ -419,8 +796,30 @@ def clean_ref(kind, case, v):
     return val
 
 
+_KREF = {}
+
+
+def _bare(kd):
+    return {k: kd[k] for k in ('fn', 'form', 'a', 'rep') if k in kd}
+
+
+def ref_keys(case, kds):
+    """The not yet known ones of several keys in one go (one child of the pristine interpreter, memo tables
+    emptied before each)."""
+    need = [kd for kd in kds if canon(_bare(kd)) not in _KREF]
+    if len(need) > 1:
+        vals = clean_ref('K', {'arrays': []}, [_bare(kd) for kd in need])
+        for kd, val in zip(need, vals or []):
+            _KREF[canon(_bare(kd))] = val
+
+
 def ref_key(case, kd):
-    return pristine(lambda: freeze(invoke(kd, World(case))))
+    """f(args) as a brand-new interpreter computes it (memo tables are module-level state); a key descriptor is
+    self-contained, so the value is kept for the later cases of this process."""
+    c = canon(_bare(kd))
+    if c not in _KREF:
+        _KREF[c] = clean_ref('k', {'arrays': []}, _bare(kd))
+    return _KREF[c]
 
 
 # --------------------------------------------------------------------------
@@ -476,17 +875,17 @@ def run_history(case):
             elif o == 'append':
                 q, g = obj(op[1], 'q'), obj(op[2], 'g')
                 nat(op[3], op[4])
-                lin[op[1]] = q[:3] + (q[3] + (('a', g, op[3], op[4]),),)
+                lin[op[1]] = q[:3] + (q[3] + (('a', g, op[3], op[4], tuple(op[5:])),),)
             elif o == 'appendw':
                 q = obj(op[1], 'q')
                 nat(op[2], op[3], op[4])
                 if op[2] >= narr:
                     raise IndexError
-                lin[op[1]] = q[:3] + (q[3] + (('w', op[2], op[3], op[4], op[2] in written),),)
+                lin[op[1]] = q[:3] + (q[3] + (('w', op[2], op[3], op[4], op[2] in written, tuple(op[5:])),),)
             elif o == 'pop':
                 q = obj(op[1], 'q')
                 nat(op[2])
-                lin[op[1]] = q[:3] + (q[3] + (('p', op[2]),),)
+                lin[op[1]] = q[:3] + (q[3] + (('p', op[2], tuple(op[3:])),),)
                 wv = lin[op[1]]
             elif o == 'wwrite':
                 nat(op[1])
@@ -496,137 +895,174 @@ def run_history(case):
         except (IndexError, TypeError):
             wv = 'bad'
         want.append(wv)
+    # One pristine object per maximal lineage: its successive chunks are the references of all prefixes.
     refs = {}
-    for wv in want:
-        if wv is not None and wv != 'bad' and wv not in refs:
-            if wv[0] == 'g':
-                refs[wv] = clean_ref('g', case, wv)
-            else:
-                refs[wv] = clean_ref('q', case, wv)
-    kref = {}
-    for op in ops:
-        if op[0] == 'call' and 0 <= op[1] < len(keys) and op[1] not in kref:
-            kref[op[1]] = ref_key(case, keys[op[1]])
+    wanted = {wv for wv in want if wv is not None and wv != 'bad'}
+    for wv in sorted(wanted, key=lambda v: -len(v[-1])):
+        if wv in refs:
+            continue
+        outs = clean_ref(wv[0], case, wv)
+        if wv[0] == 'g':
+            for i, o in enumerate(outs):
+                refs.setdefault(('g', wv[1], wv[2][:i + 1]), o)
+        else:
+            pops = [j for j, e in enumerate(wv[3]) if e[0] == 'p']
+            for j, o in zip(pops, outs):
+                refs.setdefault(wv[:3] + (wv[3][:j + 1],), o)
+    called = sorted({op[1] for op in ops if op[0] == 'call' and isinstance(op[1], int) and 0 <= op[1] < len(keys)})
+    ref_keys(case, [keys[k] for k in called])
+    kref = {k: ref_key(case, keys[k]) for k in called}
 
-    # ---- pass 2: the history itself, in one world, memo tables empty at the start
-    def history():
-        w = World(case)
-        objs, handles, returned, out = [], [], [], []
-        for k, op in enumerate(ops):
-            o = op[0]
-            if want[k] == 'bad':
+    # ---- pass 2: the history itself, in one world, in a child of the pristine interpreter (memo tables and every
+    # other module-level state of the library as after import; nothing an earlier case did can show)
+    out = []
+    for k, r in enumerate(clean_ref('h', case, ([wv == 'bad' for wv in want], kref))):
+        if isinstance(r, str):
+            out.append(r)
+            continue
+        v = want[k]
+        if v[0] == 'g':     # lineage before this chunk + this chunk
+            name = g_name(('g', v[1], v[2][:-1])) + f'+{v[2][-1]}'
+        else:
+            name = q_name(v[:3] + (v[3][:-1],)) + f'+{v[3][-1][1]}'
+        out.append(name if r[1] == refs[v] else f'{name} DIFF@{first_diff(r[1], refs[v])}')
+    return out
+
+
+def play(case, bad, kref):
+    """The history itself, in one world.  One entry per op: the output line, or ('chunk', packed chunk) for what
+    next/pop returned (the caller names it and compares it with the reference)."""
+    ops = case['ops']
+    keys = case.get('keys', [])
+    w = World(case)
+    objs, handles, returned, out = [], [], [], []
+    for k, op in enumerate(ops):
+        o = op[0]
+        if bad[k]:
+            out.append('bad-op')
+            continue
+        if o == 'key':
+            out.append('ok')
+        elif o == 'call':
+            if not (0 <= op[1] < len(keys)):
                 out.append('bad-op')
                 continue
-            if o == 'key':
-                out.append('ok')
-            elif o == 'call':
-                if not (0 <= op[1] < len(keys)):
-                    out.append('bad-op')
-                    continue
+            try:
+                res = invoke(keys[op[1]], w)
+            except Exception as e:  # noqa
+                out.append(f'EXC {type(e).__name__}')
+                handles.append((op[1], None, ('val', 'None')))
+                continue
+            kind, rv = kref[op[1]]
+            handles.append((op[1], res, (kind, [a.copy() for a in rv] if kind != 'val' else rv)))
+            returned.extend(comps(res))
+            out.append(f'h{len(handles) - 1} ' + dirty_positions(res, kref[op[1]]))
+        elif o == 'read':
+            if not (0 <= op[1] < len(handles)):
+                out.append('bad-handle')
+                continue
+            # what the caller expects to find: the value it was handed plus its own writes
+            kid, res, expect = handles[op[1]]
+            out.append(dirty_positions(res, expect))
+        elif o == 'mutate':
+            if not (0 <= op[1] < len(handles)):
+                out.append('bad-handle')
+                continue
+            cs = comps(handles[op[1]][1])
+            if not (0 <= op[2] < len(cs)) or not (0 <= op[3] < cs[op[2]].size):
+                out.append('bad-index')
+                continue
+            try:
+                cs[op[2]].flat[op[3]] = POISON
+                handles[op[1]][2][1][op[2]].flat[op[3]] = POISON
+            except ValueError:      # a read-only result: nothing was written
+                pass
+            out.append('ok')
+        elif o == 'scribble':
+            for a in returned:
                 try:
-                    res = invoke(keys[op[1]], w)
-                except Exception as e:  # noqa
-                    out.append(f'EXC {type(e).__name__}')
-                    handles.append((op[1], None, ('val', 'None')))
-                    continue
-                kind, rv = kref[op[1]]
-                handles.append((op[1], res, (kind, [a.copy() for a in rv] if kind != 'val' else rv)))
-                returned.extend(comps(res))
-                out.append(f'h{len(handles) - 1} ' + dirty_positions(res, kref[op[1]]))
-            elif o == 'read':
-                if not (0 <= op[1] < len(handles)):
-                    out.append('bad-handle')
-                    continue
-                # what the caller expects to find: the value it was handed plus its own writes
-                kid, res, expect = handles[op[1]]
-                out.append(dirty_positions(res, expect))
-            elif o == 'mutate':
-                if not (0 <= op[1] < len(handles)):
-                    out.append('bad-handle')
-                    continue
-                cs = comps(handles[op[1]][1])
-                if not (0 <= op[2] < len(cs)) or not (0 <= op[3] < cs[op[2]].size):
-                    out.append('bad-index')
-                    continue
-                try:
-                    cs[op[2]].flat[op[3]] = POISON
-                    handles[op[1]][2][1][op[2]].flat[op[3]] = POISON
-                except ValueError:      # a read-only result: nothing was written
+                    a[...] = POISON
+                except ValueError:
                     pass
-                out.append('ok')
-            elif o == 'scribble':
-                for a in returned:
-                    try:
-                        a[...] = POISON
-                    except ValueError:
-                        pass
-                for _, res, expect in handles:
-                    for a, e in zip(comps(res), expect[1] if expect[0] != 'val' else []):
-                        if a.flags.writeable:
-                            e[...] = POISON
-                out.append('ok')
-            elif o == 'seed':
-                np.random.seed(op[1])
-                out.append('ok')
-            elif o == 'rand':
-                np.random.rand(op[1])
-                np.random.randint(0, 10, size=op[1])
-                out.append('ok')
-            elif o == 'wwrite':
-                w.arrays[op[1]][...] = POISON
-                out.append('ok')
-            elif o == 'new':
-                objs.append(build(case['specs'][op[1]], w))
-                out.append(f'o{len(objs) - 1}')
-            elif o == 'qnew':
-                objs.append(make_queue(op[1], op[2]))
-                out.append(f'o{len(objs) - 1}')
-            elif o == 'reset':
-                objs[op[1]].reset()
-                out.append('ok')
-            elif o == 'copy':
-                objs.append(copy.deepcopy(objs[op[1]]))
-                out.append(f'o{len(objs) - 1}')
-            elif o == 'clone':
-                objs.append(objs[op[1]].clone())
-                out.append(f'o{len(objs) - 1}')
-            elif o == 'append':
-                objs[op[1]].append(objs[op[2]], op[3], delays=op[4] / FS)
-                out.append('ok')
-            elif o == 'appendw':
-                objs[op[1]].append(w.arrays[op[2]], op[3], delays=op[4] / FS)
-                out.append('ok')
-            elif o in ('next', 'pop'):
-                try:
-                    got = objs[op[1]].next(op[2]) if o == 'next' else objs[op[1]].pop_buffer(op[2])
-                except Exception as e:  # noqa
-                    got = e
-                if isinstance(got, np.ndarray):
-                    returned.append(got)
-                p = pack(got)
-                v = want[k]
-                if v[0] == 'g':     # lineage before this chunk + this chunk
-                    name = g_name(('g', v[1], v[2][:-1])) + f'+{v[2][-1]}'
+            for _, res, expect in handles:
+                for a, e in zip(comps(res), expect[1] if expect[0] != 'val' else []):
+                    if a.flags.writeable:
+                        e[...] = POISON
+            out.append('ok')
+        elif o == 'seed':
+            np.random.seed(op[1])
+            out.append('ok')
+        elif o == 'rand':
+            np.random.rand(op[1])
+            np.random.randint(0, 10, size=op[1])
+            out.append('ok')
+        elif o == 'wwrite':
+            w.arrays[op[1]][...] = POISON
+            out.append('ok')
+        elif o == 'new':
+            objs.append(build_or_broken(case['specs'][op[1]], w))
+            out.append(f'o{len(objs) - 1}')
+        elif o == 'qnew':
+            objs.append(make_queue(op[1], op[2]))
+            out.append(f'o{len(objs) - 1}')
+        elif o == 'reset':
+            objs[op[1]].reset()
+            out.append('ok')
+        elif o == 'copy':
+            objs.append(copy.deepcopy(objs[op[1]]))
+            out.append(f'o{len(objs) - 1}')
+        elif o == 'clone':
+            objs.append(objs[op[1]].clone())
+            out.append(f'o{len(objs) - 1}')
+        elif o == 'append':
+            do_append(objs[op[1]], objs[op[2]], op[3], op[4], tuple(op[5:]))
+            out.append('ok')
+        elif o == 'appendw':
+            do_append(objs[op[1]], w.arrays[op[2]], op[3], op[4], tuple(op[5:]))
+            out.append('ok')
+        elif o in ('next', 'pop'):
+            try:
+                if o == 'next':     # a NumPy integer is the same request
+                    got = objs[op[1]].next(np.int64(op[2]) if 'np' in op[3:] else op[2])
                 else:
-                    name = q_name(v[:3] + (v[3][:-1],)) + f'+{v[3][-1][1]}'
-                if p == refs[v]:
-                    out.append(name)
-                else:
-                    out.append(f'{name} DIFF@{first_diff(p, refs[v])}')
-            else:
-                out.append('bad-op')
-        return out
+                    got = do_pop(objs[op[1]], op[2], tuple(op[3:]))
+            except Exception as e:  # noqa
+                got = e
+            if isinstance(got, np.ndarray):
+                returned.append(got)
+            out.append(('chunk', pack(got)))     # packed at once: later writes cannot change it
+        else:
+            out.append('bad-op')
+    return out
 
-    st = np.random.get_state()
-    try:
-        return pristine(history)
-    finally:
-        np.random.set_state(st)
 
 
 # --------------------------------------------------------------------------
 # case generation
 # --------------------------------------------------------------------------
+
+# One representation of the numbers per history.  DISABLED demand (found by this pass, see notes/C10.md): the memo
+# conflates 6.0 and np.float64(6.0) although NumPy computes differently with them (weak/strong scalar promotion), so
+# mixing representations of the same value in one history is not asked for.
+REPS = [None, None, None, 'np', 'int', 'flt']
+
+
+def set_rep(spec, rep):
+    node = spec
+    while isinstance(node, dict):
+        node.pop('rep', None)
+        if rep and node['t'] != 'fixed':
+            node['rep'] = rep
+        node = node.get('in')
+    return spec
+
+
+def maybe(rng, spec, p, **fields):
+    """With probability p give the spec the optional fields (non-default keyword arguments)."""
+    if rng.random() < p:
+        spec.update({k: (rng.choice(v) if isinstance(v, list) else v) for k, v in fields.items()})
+    return spec
+
 
 def leaf_spec(rng, narrays, finite=False):
     kinds = ['fixed', 'chirp', 'click', 'blclick', 'wav'] if finite else \
@@ -635,56 +1071,92 @@ def leaf_spec(rng, narrays, finite=False):
     t = rng.choice(kinds)
     if t == 'fixed' and not narrays:
         t = 'chirp'
+    return leaf_spec_of(rng, t, narrays)
+
+
+def leaf_spec_of(rng, t, narrays):
     if t == 'tone':
-        return {'t': t, 'f': rng.choice([50.0, 100.0, 125.0]), 'level': rng.choice([1.0, 0.5]),
-                'phase': rng.choice([0, 0.3]), 'pol': rng.choice([1, -1])}
+        s = {'t': t, 'f': rng.choice([50.0, 100.0, 125.0]), 'level': rng.choice([1.0, 0.5]),
+             'phase': rng.choice([0, 0.3]), 'pol': rng.choice([1, -1])}
+        maybe(rng, s, 0.35, cal=[1, 2])
+        return maybe(rng, s, 0.2, kw=1)
     if t == 'samtone':
-        return {'t': t, 'fc': rng.choice([200.0, 250.0]), 'fm': rng.choice([20.0, 40.0]), 'level': 1.0}
+        s = {'t': t, 'fc': rng.choice([200.0, 250.0]), 'fm': rng.choice([20.0, 40.0]), 'level': 1.0}
+        maybe(rng, s, 0.3, depth=1, phase=[0.3, 0], plb=[0, 0.1], pub=[0, 0.2], pol=[1, -1])
+        maybe(rng, s, 0.3, eq_power=[True, False], equalize=[True, False], cal=[1, 2])
+        return s
     if t == 'silence':
-        return {'t': t, 'fill': rng.choice([0, 1])}
+        return maybe(rng, {'t': t, 'fill': rng.choice([0, 1])}, 0.3, kw=1)
     if t == 'square':
-        return {'t': t, 'level': 1.0, 'f': rng.choice([100.0, 125.0]), 'duty': rng.choice([0.5, 0.25])}
+        return {'t': t, 'level': rng.choice([1.0, 2.0]), 'f': rng.choice([100.0, 125.0]),
+                'duty': rng.choice([0.5, 0.25])}
     if t == 'bbn':
-        return {'t': t, 'level': rng.choice([1.0, 2.0]), 'seed': rng.choice([0, 1, 7]), 'pol': rng.choice([1, -1])}
+        s = {'t': t, 'level': rng.choice([1.0, 2.0]), 'seed': rng.choice([0, 1, 7, 2 ** 32 - 1]),
+             'pol': rng.choice([1, -1])}
+        maybe(rng, s, 0.25, cal=[0, 1])
+        return maybe(rng, s, 0.2, kw=1)
     if t in ('bln', 'blneq'):
-        return {'t': t, 'seed': rng.choice([1, 3]), 'level': 1.0, 'fl': rng.choice([100.0, 120.0]), 'fh': 200.0,
-                'rolloff': 1, 'pa': 1, 'sa': rng.choice([40, 60])}
+        s = {'t': t, 'seed': rng.choice([1, 3]), 'level': 1.0, 'fl': rng.choice([100.0, 120.0]), 'fh': 200.0,
+             'rolloff': 1, 'pa': 1, 'sa': rng.choice([40, 60])}
+        maybe(rng, s, 0.3, pol=[1, -1], dis=[False, True])
+        if t == 'blneq':
+            return maybe(rng, s, 0.5, cal=[0, 1])
+        return maybe(rng, s, 0.25, cal=[1, 2])
     if t == 'fir':
-        return {'t': t, 'fl': 100.0, 'fh': rng.choice([200.0, 250.0]), 'level': 1.0, 'ntaps': rng.choice([11, 21]),
-                'seed': rng.choice([2, 4])}
+        s = {'t': t, 'fl': 100.0, 'fh': rng.choice([200.0, 250.0]), 'level': 1.0, 'ntaps': rng.choice([11, 21]),
+             'seed': rng.choice([2, 4])}
+        maybe(rng, s, 0.3, window=['hann', 'hamming'], pol=[1, -1])
+        return maybe(rng, s, 0.3, cal=[1, 2], equalize=[True, False], maxc=[3.0, 20.0])
     if t == 'shaped':
-        return {'t': t, 'level': 1.0, 'f1': 100.0, 'f2': rng.choice([300.0, 350.0]), 'ntaps': rng.choice([11, 21]),
-                'seed': rng.choice([5, 6])}
+        s = {'t': t, 'level': 1.0, 'f1': 100.0, 'f2': rng.choice([300.0, 350.0]), 'ntaps': rng.choice([11, 21]),
+             'seed': rng.choice([5, 6])}
+        return maybe(rng, s, 0.3, window=['hann', 'hamming'], pol=[1, -1], cal=[0, 1])
     if t == 'fixed':
         return {'t': t, 'w': rng.randrange(narrays)}
     if t == 'chirp':
-        return {'t': t, 'f0': 50.0, 'f1': rng.choice([200.0, 300.0]), 'dur': rng.choice([0.02, 0.03]), 'level': 1.0,
-                'window': rng.choice(['boxcar', 'hann'])}
+        s = {'t': t, 'f0': 50.0, 'f1': rng.choice([200.0, 300.0]), 'dur': rng.choice([0.02, 0.03]), 'level': 1.0,
+             'window': rng.choice(['boxcar', 'hann'])}
+        return maybe(rng, s, 0.3, cal=[1, 2], equalize=[True, False], maxc=[3.0, 20.0])
     if t == 'click':
-        return {'t': t, 'dur': rng.choice([0.005, 0.012]), 'level': 0.0, 'pol': rng.choice([1, -1])}
+        return maybe(rng, {'t': t, 'dur': rng.choice([0.005, 0.012]), 'level': rng.choice([0.0, 6.0]),
+                           'pol': rng.choice([1, -1])}, 0.3, cal=[0, 1, 2])
     if t == 'blclick':
-        return {'t': t, 'flb': 50.0, 'fub': rng.choice([300.0, 400.0]), 'window': rng.choice([0.02, 0.03]),
-                'level': 1.0}
-    return {'t': 'wav', 'file': rng.choice(['a16.wav', 'b16.wav', 'c32.wav']), 'norm': rng.choice(['pe', None, 'rms'])}
+        s = {'t': t, 'flb': 50.0, 'fub': rng.choice([300.0, 400.0]), 'window': rng.choice([0.02, 0.03]),
+             'level': 1.0}
+        return maybe(rng, s, 0.3, cal=[1, 2], equalize=[True, False], maxc=[3.0, 20.0])
+    s = {'t': 'wav', 'file': rng.choice(['a16.wav', 'b16.wav', 'c32.wav']), 'norm': rng.choice(['pe', None, 'rms'])}
+    return maybe(rng, s, 0.4, level=[0.0, 6.0], cal=[0, 1])
 
 
 def wrap_spec(rng, inner):
     t = rng.choice(['gate', 'env', 'cos2', 'sam', 'sqenv', 'notch', 'gate', 'cos2'])
     if t == 'gate':
-        return {'t': t, 'start': rng.choice([0.0, 0.003, 0.005]), 'dur': rng.choice([0.008, 0.01, 0.02]), 'in': inner}
-    if t == 'env':
-        return {'t': t, 'window': rng.choice(['cosine-squared', 'hann']), 'dur': rng.choice([0.012, 0.02]),
-                'rise': rng.choice([0.004, 0.005, None]), 'start': rng.choice([0, 0.002]), 'in': inner}
-    if t == 'cos2':
-        return {'t': t, 'dur': rng.choice([0.012, 0.02]), 'rise': rng.choice([0.004, 0.005]),
-                'start': rng.choice([0, 0.002]), 'in': inner}
-    if t == 'sam':
-        return {'t': t, 'depth': rng.choice([1.0, 0.5]), 'fm': rng.choice([50.0, 40.0]),
-                'delay': rng.choice([0.0, 0.004]), 'dir': rng.choice([1, 1, -1]), 'in': inner}
-    if t == 'sqenv':
-        return {'t': t, 'depth': 1.0, 'fm': rng.choice([50.0, 40.0]), 'duty': 0.5, 'alpha': rng.choice([0, 0.2]),
-                'in': inner}
-    return {'t': 'notch', 'f': rng.choice([100.0, 150.0]), 'q': 1.33, 'in': inner}
+        s = {'t': t, 'start': rng.choice([0.0, 0.003, 0.005]), 'dur': rng.choice([0.008, 0.01, 0.02]), 'in': inner}
+        maybe(rng, s, 0.2, kw=1)
+    elif t == 'env':
+        s = {'t': t, 'window': rng.choice(['cosine-squared', 'hann']), 'dur': rng.choice([0.012, 0.02]),
+             'rise': rng.choice([0.004, 0.005, None]), 'start': rng.choice([0, 0.002]), 'in': inner}
+        maybe(rng, s, 0.3, tr=['half', 'neg', None])
+    elif t == 'cos2':
+        s = {'t': t, 'dur': rng.choice([0.012, 0.02]), 'rise': rng.choice([0.004, 0.005]),
+             'start': rng.choice([0, 0.002]), 'in': inner}
+        maybe(rng, s, 0.2, kw=1)
+    elif t == 'sam':
+        s = {'t': t, 'depth': rng.choice([1.0, 0.5]), 'fm': rng.choice([50.0, 40.0]),
+             'delay': rng.choice([0.0, 0.004]), 'dir': rng.choice([1, 1, -1]), 'in': inner}
+        maybe(rng, s, 0.3, onset=['silence_transition', 'ss_transition'])
+    elif t == 'sqenv':
+        s = {'t': t, 'depth': rng.choice([1.0, 1.0, 0.5]), 'fm': rng.choice([50.0, 40.0]),
+             'duty': rng.choice([0.5, 0.5, 0.25]), 'alpha': rng.choice([0, 0.2]), 'in': inner}
+        maybe(rng, s, 0.2, kw=1)
+    else:
+        s = {'t': 'notch', 'f': rng.choice([100.0, 150.0]), 'q': 1.33, 'in': inner}
+    return s
+
+
+def has_filter(spec):
+    """an IIR lfilter state somewhere in the chain (the FIR ones raise ValueError on an empty request: harmless)"""
+    return spec['t'] in ('notch', 'bln') or ('in' in spec and has_filter(spec['in']))
 
 
 def is_finite(spec):
@@ -696,7 +1168,7 @@ def is_finite(spec):
     return False
 
 
-def random_spec(rng, narrays, finite=False):
+def random_spec(rng, narrays, finite=False, rep=None):
     s = leaf_spec(rng, narrays)
     depth = rng.choice([0, 1, 1, 2])
     for _ in range(depth):
@@ -708,81 +1180,169 @@ def random_spec(rng, narrays, finite=False):
         # repeat needs a short finite input: an enveloped carrier of 12 samples in a 25-sample period
         s = {'t': 'repeat', 'n': 2, 'skip': rng.choice([0, 1]), 'rate': 40.0, 'delay': rng.choice([0.0, 0.002]),
              'in': {'t': 'cos2', 'dur': 0.012, 'rise': 0.004, 'start': 0, 'in': leaf_spec(rng, narrays)}}
-    return s
+    return set_rep(s, rep)
 
 
-def random_arrays(rng, k):
+def random_arrays(rng, k, tiny=False):
     out = []
     for _ in range(k):
-        n = rng.choice([12, 20, 30])
+        n = rng.choice([12, 20, 30] + ([0, 1, 2] if tiny else []))
         out.append([round(rng.uniform(-1, 1), 3) or 0.5 for _ in range(n)])
     return out
+
+
+def random_dtypes(rng, k):
+    """dtype per parameter array (None = float64): the API takes any ndarray"""
+    return [rng.choice([None, None, None, 'float32', 'int16', 'int32']) for _ in range(k)]
 
 
 def keys_for_spec(spec, chunks):
     """Key descriptors of the memoised calls a factory of this spec makes when drawn in `chunks`."""
     out = []
     t = spec['t']
+    rep = {'rep': spec['rep']} if spec.get('rep') else {}
     if t in ('env', 'cos2'):
         off = 0
         for n in chunks:
-            out.append({'fn': 'envelope', 'form': 'kw',
-                        'a': {'window': spec.get('window', 'cosine-squared'), 'dur': spec['dur'], 'rise': spec['rise'],
-                              'offset': off, 'start': spec['start'], 'samples': n}})
+            a = {'window': spec.get('window', 'cosine-squared'), 'dur': spec['dur'], 'rise': spec['rise'],
+                 'offset': off, 'start': spec['start'], 'samples': n}
+            if spec.get('tr'):
+                a['tr'] = spec['tr']
+            out.append(dict({'fn': 'envelope', 'form': 'kw', 'a': a}, **rep))
             off += n
-    if t == 'sam' and spec['dir'] == 1:
+    if t == 'sam' and (spec['dir'] == 1 or spec.get('onset') == 'silence_transition'):
         off = 0
         for n in chunks:
-            out.append({'fn': '_sam_envelope', 'form': 'eq',
-                        'a': {'offset': off, 'samples': n, 'depth': spec['depth'], 'fm': spec['fm'],
-                              'delay': spec['delay']}})
+            out.append(dict({'fn': '_sam_envelope', 'form': 'pi' if spec.get('onset') == 'silence_transition' else 'eq',
+                             'a': {'offset': off, 'samples': n, 'depth': spec['depth'], 'fm': spec['fm'],
+                                   'delay': spec['delay']}}, **rep))
             off += n
     if t in ('bln', 'blneq'):
-        out.append({'fn': 'blfilter', 'form': 'pos',
-                    'a': {k: spec[k] for k in ('fl', 'fh', 'rolloff', 'pa', 'sa')}})
+        out.append(dict({'fn': 'blfilter', 'form': 'pos',
+                         'a': {k: spec[k] for k in ('fl', 'fh', 'rolloff', 'pa', 'sa')}}, **rep))
     if t == 'blneq':
-        out.append({'fn': 'bliir', 'form': 'pos', 'a': {'fl': spec['fl'], 'fh': spec['fh']}})
-    if t == 'wav':
-        out.append({'fn': 'load_wav', 'form': 'factory', 'a': {'file': spec['file'], 'norm': spec['norm']}})
+        out.append(dict({'fn': 'bliir', 'form': 'pos', 'a': {'fl': spec['fl'], 'fh': spec['fh'],
+                                                             'cal': spec.get('cal', 0)}}, **rep))
+    if t == 'wav' and not ('level' in spec and spec['norm'] is None):
+        a = {'file': spec['file'], 'norm': spec['norm']}
+        if 'level' in spec:
+            a.update(level=spec['level'], cal=spec['cal'])
+        out.append(dict({'fn': 'load_wav', 'form': 'factory', 'a': a}, **rep))
     if 'in' in spec:
         out.extend(keys_for_spec(spec['in'], chunks))
     return out
 
 
-def random_key(rng):
+def random_key(rng, rep=None):
+    kd = random_key_of(rng)
+    if rep:
+        kd['rep'] = rep
+    return kd
+
+
+def random_key_of(rng):
     fn = rng.choice(['envelope', 'envelope', 'cos2envelope', 'cos2envelope', 'sam_envelope', '_sam_envelope',
-                     'sam_eq_power', 'sam_eq_phase', 'blfilter', 'bliir', 'load_wav'])
+                     'sam_eq_power', 'sam_eq_phase', 'blfilter', 'bliir', 'load_wav', 'load_wav', 'plain', 'plain'])
     env_a = lambda: {'dur': rng.choice([0.012, 0.02]), 'rise': rng.choice([0.004, 0.005]),  # noqa
                      'offset': rng.choice([0, 3, 7]), 'start': rng.choice([0, 0.002]),
-                     'samples': rng.choice([5, 9, 20])}
+                     'samples': rng.choice([5, 9, 20, 0])}
     if fn == 'envelope':
-        form = rng.choice(['pos', 'kw', 'ramped'])
+        form = rng.choice(['pos', 'kw', 'ramped', 'pos_tr'])
         a = env_a()
         a['window'] = rng.choice(['cosine-squared', 'hann'])
         if form == 'ramped':
             a = {'window': a['window'], 'rise': a['rise'], 'dur': a['dur']}
+        elif form == 'pos_tr' or (form == 'kw' and rng.random() < 0.3):
+            a['tr'] = rng.choice(['half', 'neg', None])
         return {'fn': fn, 'form': form, 'a': a}
     if fn == 'cos2envelope':
-        form = rng.choice(['pos', 'short'])
+        form = rng.choice(['pos', 'short', 'kw'])
         a = env_a()
         if form == 'short':
             a = {'dur': a['dur'], 'rise': a['rise']}
         return {'fn': fn, 'form': form, 'a': a}
     if fn in ('sam_envelope', '_sam_envelope'):
-        return {'fn': fn, 'form': 'eq' if fn == '_sam_envelope' else 'pos',
+        form = rng.choice(['eq', 'pi', 'kw'] if fn == '_sam_envelope' else ['pos', 'kw_eq', 'kw'])
+        return {'fn': fn, 'form': form,
                 'a': {'offset': rng.choice([0, 4]), 'samples': rng.choice([6, 10]), 'depth': rng.choice([1.0, 0.5]),
                       'fm': 50.0, 'delay': rng.choice([0.0, 0.004])}}
     if fn == 'sam_eq_power':
-        return {'fn': fn, 'form': 'pos', 'a': {'depth': rng.choice([1.0, 0.5])}}
+        return {'fn': fn, 'form': rng.choice(['pos', 'kw']), 'a': {'depth': rng.choice([1.0, 0.5])}}
     if fn == 'sam_eq_phase':
-        return {'fn': fn, 'form': 'pos', 'a': {'delay': 0.0, 'depth': rng.choice([1.0, 0.5, 0]), 'dir': rng.choice([1, -1])}}
+        return {'fn': fn, 'form': rng.choice(['pos', 'kw', 'kw_dir']),
+                'a': {'delay': 0.0, 'depth': rng.choice([1.0, 0.5, 0]), 'dir': rng.choice([1, -1])}}
     if fn == 'blfilter':
-        return {'fn': fn, 'form': 'pos', 'a': {'fl': rng.choice([100.0, 120.0]), 'fh': 200.0, 'rolloff': 1, 'pa': 1,
-                                                'sa': rng.choice([40, 60])}}
+        return {'fn': fn, 'form': rng.choice(['pos', 'pos', 'kw', 'allkw']),
+                'a': {'fl': rng.choice([100.0, 120.0]), 'fh': 200.0, 'rolloff': 1, 'pa': 1, 'sa': rng.choice([40, 60])}}
     if fn == 'bliir':
-        return {'fn': fn, 'form': 'pos', 'a': {'fl': rng.choice([100.0, 120.0]), 'fh': 200.0}}
-    return {'fn': 'load_wav', 'form': 'factory', 'a': {'file': rng.choice(['a16.wav', 'b16.wav', 'c32.wav']),
-                                                       'norm': rng.choice(['pe', None, 'rms'])}}
+        return {'fn': fn, 'form': rng.choice(['pos', 'kw']),
+                'a': {'fl': rng.choice([100.0, 120.0]), 'fh': 200.0, 'cal': rng.choice([0, 1])}}
+    if fn == 'load_wav':
+        a = {'file': rng.choice(['a16.wav', 'b16.wav', 'c32.wav']), 'norm': rng.choice(['pe', None, 'rms'])}
+        form = rng.choice(['factory', 'factory', 'kwnorm', 'posnorm', 'path', 'allkw', 'short'])
+        if form == 'short':
+            a['norm'] = None
+        elif form == 'factory' and a['norm'] is not None and rng.random() < 0.5:
+            a.update(level=rng.choice([0.0, 6.0]), cal=rng.choice([0, 1]))
+        return {'fn': fn, 'form': form, 'a': a}
+    return plain_key(rng)
+
+
+def plain_key(rng, name=None):
+    """A call of one of the plain (not memoised) stimulus functions."""
+    name = name or rng.choice(PLAIN)
+    a = {'level': rng.choice([1.0, 0.5]), 'dur': rng.choice([0.012, 0.02]), 'seed': rng.choice([1, 3]),
+         'pol': rng.choice([1, -1]), 'offset': rng.choice([0, 3]), 'samples': rng.choice([6, 10])}
+    a.update({'tone': {'f': rng.choice([100.0, 125.0]), 'phase': rng.choice([0, 0.3])},
+              'sam_tone': {'fc': 200.0, 'fm': rng.choice([20.0, 40.0])},
+              'square_wave': {'depth': rng.choice([1.0, 0.5]), 'fm': 50.0, 'duty': 0.5, 'alpha': rng.choice([0, 0.2])},
+              'broadband_noise': {}, 'notch_noise': {'f': rng.choice([100.0, 150.0])},
+              'bandlimited_noise': {'fl': rng.choice([100.0, 120.0]), 'fh': 200.0, 'sa': rng.choice([40, 60])},
+              'bandlimited_fir_noise': {'fl': 100.0, 'fh': rng.choice([200.0, 250.0]), 'ntaps': rng.choice([11, 21])},
+              'shaped_noise': {'f1': rng.choice([100.0, 150.0]), 'ntaps': rng.choice([11, 21])},
+              'chirp': {'f0': 50.0, 'f1': rng.choice([200.0, 300.0]), 'maxc': rng.choice([3.0, 20.0])},
+              'bandlimited_click': {'flb': 50.0, 'fub': rng.choice([300.0, 400.0]), 'window': rng.choice([0.02, 0.03]),
+                                    'maxc': rng.choice([3.0, 20.0])},
+              'repeat': {'wave': [round(rng.uniform(-1, 1), 3) for _ in range(rng.choice([3, 6]))], 'n': 2,
+                         'skip': rng.choice([0, 1]), 'rate': 100.0, 'delay': rng.choice([0.0, 0.002])},
+              'ramped_tone': {'f': 100.0, 'rise': rng.choice([0.004, 0.005, None]), 'phase': rng.choice([0, 0.3]),
+                              'window': rng.choice(['cosine-squared', 'hann'])},
+              'cos2ramp': {}}[name])
+    return {'fn': 'f:' + name, 'form': rng.choice(['pos', 'kw']), 'a': a}
+
+
+_KPERT = {'dur': lambda v, r: 0.02 if v != 0.02 else 0.016, 'rise': lambda v, r: 0.003, 'offset': lambda v, r: v + 1,
+          'start': lambda v, r: 0.001 if v != 0.001 else 0.003, 'samples': lambda v, r: v + 1,
+          'x': lambda v, r: v + 1, 'depth': lambda v, r: 0.75 if v != 0.75 else 0.5, 'fm': lambda v, r: v + 10.0,
+          'delay': lambda v, r: v + 0.002, 'dir': lambda v, r: -v, 'fl': lambda v, r: v + 10.0,
+          'sa': lambda v, r: v + 10, 'cal': lambda v, r: 1 - v, 'level': lambda v, r: v * 2.0 if v else 3.0,
+          'seed': lambda v, r: v + 1, 'pol': lambda v, r: -v, 'f': lambda v, r: v + 25.0,
+          'phase': lambda v, r: v + 0.25, 'f1': lambda v, r: v + 20.0, 'ntaps': lambda v, r: v + 2,
+          'fub': lambda v, r: v + 50.0, 'alpha': lambda v, r: 0.4, 'skip': lambda v, r: v + 1,
+          'window': lambda v, r: {'hann': 'cosine-squared', 'cosine-squared': 'hann'}.get(v, v),
+          'tr': lambda v, r: 'neg' if v == 'half' else 'half',
+          'norm': lambda v, r: 'rms' if v == 'pe' else 'pe',
+          'file': lambda v, r: 'a16.wav' if v != 'a16.wav' else 'b16.wav'}
+
+
+def sibling_key(rng, kd):
+    """The same call with exactly one argument changed (a memo key that is too coarse conflates the two)."""
+    a = kd['a']
+    sites = [k for k in a if k in _KPERT and a[k] is not None and not isinstance(a[k], list)]
+    if kd['fn'] == 'load_wav' and kd['form'] == 'short':
+        sites = ['file']
+    if kd['fn'] == 'load_wav' and kd['form'] == 'factory' and a['norm'] is not None and 'level' not in a \
+            and rng.random() < 0.5:
+        return dict(kd, a=dict(a, level=6.0, cal=rng.choice([0, 1])))     # the same file, now scaled
+    if kd['fn'].startswith('f:'):
+        sites = [k for k in sites if k not in ('level', 'seed', 'pol', 'offset', 'samples', 'dur')] or sites
+    if not sites:
+        return None
+    k = rng.choice(sites)
+    v = _KPERT[k](a[k], rng)
+    if v == a[k]:
+        return None
+    return dict(kd, a=dict(a, **{k: v}))
 
 
 _LENS = {}
@@ -804,10 +1364,10 @@ def close_keys(kds):
     seen, out = {}, []
 
     def add(kd):
-        c = canon({k: kd[k] for k in ('fn', 'form', 'a')})
+        kd = {k: kd[k] for k in ('fn', 'form', 'a', 'rep') if k in kd and (k != 'rep' or kd[k])}
+        c = canon(kd)
         if c in seen:
             return seen[c]
-        kd = {k: kd[k] for k in ('fn', 'form', 'a')}
         ik = inner_key(kd)
         ii = add(ik) if ik is not None else None
         seen[c] = len(out)
@@ -821,6 +1381,26 @@ def close_keys(kds):
 
 
 CHUNKS = [1, 2, 3, 4, 5, 7, 8, 11, 13]
+# also: nothing at all, and the structural lengths (array sizes, gate/envelope ends) and their neighbours
+EDGE_CHUNKS = [0, 1, 9, 10, 11, 12, 13, 19, 20, 21, 23, 29, 30, 31]
+APPEND_EX = [[], [], [], ['ext'], ['kw'], ['pos'], ['meta'], ['ext', 'meta'], ['pos', 'meta'], ['cyc'], ['tnp'],
+             ['none'], ['ext', 'none']]
+POP_EX = [[], [], [], [], ['np'], ['kw'], ['nodec']]
+
+
+def chunk(rng):
+    return rng.choice(EDGE_CHUNKS) if rng.random() < 0.25 else rng.choice(CHUNKS)
+
+
+def queue_param(rng, kind):
+    """brand: the seed; fifo/inter: < 100 the plain class, >= 100 grouped (size p-100) / keep_complete_waveforms=False"""
+    if kind == 'brand':
+        return rng.choice([0, 1, 5, 2 ** 32 - 1])
+    if kind == 'fifo':
+        return rng.choice([0, 1, 5, 101, 102, 103])
+    if kind == 'inter':
+        return rng.choice([0, 1, 100])
+    return rng.choice([0, 1, 5])
 
 
 class Builder:
@@ -830,6 +1410,7 @@ class Builder:
         self.rng = rng
         self.case = {'kind': kind, 'specs': [], 'arrays': [], 'keys': [], 'ops': []}
         self.objs = []       # 'g' | 'q' per object id
+        self.ospec = []      # spec index per object (None for queues)
         self.nh = 0          # number of handles
         self.hkey = []       # key index per handle
 
@@ -839,21 +1420,25 @@ class Builder:
     def new(self, s):
         self.op('new', s)
         self.objs.append('g')
+        self.ospec.append(s)
         return len(self.objs) - 1
 
     def qnew(self, kind, param):
         self.op('qnew', kind, param)
         self.objs.append('q')
+        self.ospec.append(None)
         return len(self.objs) - 1
 
     def copy(self, o):
         self.op('copy', o)
         self.objs.append(self.objs[o])
+        self.ospec.append(self.ospec[o])
         return len(self.objs) - 1
 
     def clone(self, o):
         self.op('clone', o)
         self.objs.append('q')
+        self.ospec.append(None)
         return len(self.objs) - 1
 
     def call(self, k):
@@ -884,6 +1469,27 @@ class Builder:
         elif self.nh:
             self.mutate_some(self.rng.randrange(self.nh))
 
+    def next(self, o, n):
+        # DISABLED demand (defect found by this pass, see notes/C10.md): an empty request to a generator with an
+        # IIR lfilter state stores SciPy's uninitialised final state; not asked for until that is repaired.
+        if n == 0 and has_filter(self.case['specs'][self.ospec[o]]):
+            n = 1
+        self.op('next', o, n, *(['np'] if self.rng.random() < 0.15 else []))
+
+    def pop(self, q, n):
+        self.op('pop', q, n, *self.rng.choice(POP_EX))
+
+    def audit_arrays(self, skip=()):
+        """Everything that was passed in must come back as it was: a generator built NOW over each parameter array
+        (the caller did not write into it) must produce the stream of that array."""
+        c = self.case
+        for i, a in enumerate(c['arrays']):
+            if i in skip:
+                continue
+            c['specs'].append({'t': 'fixed', 'w': i})
+            o = self.new(len(c['specs']) - 1)
+            self.op('next', o, len(a) + 2)
+
     def gens(self):
         return [i for i, t in enumerate(self.objs) if t == 'g']
 
@@ -898,6 +1504,7 @@ class Builder:
 
 def gen_cache_case(rng):
     b = Builder(rng, 'cache')
+    rep = rng.choice(REPS)
     kds = [random_key(rng) for _ in range(rng.choice([1, 2, 3]))]
     if rng.random() < 0.5:
         # a wrapper together with the call it wraps, and the factory-form of the same envelope
@@ -908,6 +1515,8 @@ def gen_cache_case(rng):
         # the same value handed to different optional parameters, positionally and by keyword
         x = rng.choice([1, 2, 16])
         if rng.random() < 0.5:
+            # (start_time=x is x seconds of envelope; 16 s = 16020 cells per call cost the model half its run time)
+            x = min(x, 5)
             a = {'window': rng.choice(['cosine-squared', 'hann']), 'dur': 0.02, 'rise': 0.005, 'x': x}
             kds += [{'fn': 'envelope', 'form': 'pos_off', 'a': a}, {'fn': 'envelope', 'form': 'kw_start', 'a': dict(a)}]
         else:
@@ -915,8 +1524,29 @@ def gen_cache_case(rng):
             kds += [{'fn': 'cos2envelope', 'form': 'pos_off', 'a': a}, {'fn': 'cos2envelope', 'form': 'kw_samples', 'a': dict(a)}]
         if rng.random() < 0.5:
             kds[-2:] = kds[-2:][::-1]
+    first = []
+    if rng.random() < 0.5:
+        # the same call with one argument changed, called back to back: each must get its own value
+        kd = rng.choice([k for k in kds if k['form'] != 'kw_start'])     # (that one is seconds long: model time)
+        sib = sibling_key(rng, kd)
+        pair = [kd] + ([sib] if sib is not None else [])
+        if rng.random() < 0.5:
+            pair = pair[::-1]
+        kds += pair
+        first = pair
+    elif rng.random() < 0.2:
+        # two calls that differ in a callable argument only
+        a = {'window': rng.choice(['cosine-squared', 'hann']), 'dur': 0.02, 'rise': 0.005, 'offset': rng.choice([0, 3]),
+             'start': 0, 'samples': rng.choice([7, 20])}
+        form = rng.choice(['kw', 'pos_tr'])
+        first = [{'fn': 'envelope', 'form': form, 'a': dict(a, tr=t)} for t in rng.sample(['half', 'neg', None], 2)]
+        kds += first
+    if rep:
+        kds = [dict(kd, rep=rep) for kd in kds]
     b.case['keys'], idx = close_keys(kds)
     nk = len(b.case['keys'])
+    for j in range(len(kds) - len(first), len(kds)):
+        b.call(idx[j])
     for _ in range(rng.randint(3, 10)):
         r = rng.random()
         if r < 0.5 or not b.nh:
@@ -935,19 +1565,22 @@ def gen_cache_case(rng):
 def gen_gen_case(rng, mixed=False):
     b = Builder(rng, 'mixed' if mixed else 'gen')
     c = b.case
-    c['arrays'] = random_arrays(rng, rng.choice([0, 1, 2]))
+    c['arrays'] = random_arrays(rng, rng.choice([0, 1, 2]), tiny=True)
+    c['adtypes'] = random_dtypes(rng, len(c['arrays']))
     ns = rng.choice([1, 2, 2, 3])
-    c['specs'] = [random_spec(rng, len(c['arrays'])) for _ in range(ns)]
+    rep = rng.choice(REPS)
+    c['specs'] = [random_spec(rng, len(c['arrays']), rep=rep) for _ in range(ns)]
     if len(c['arrays']) and rng.random() < 0.5:
         # two different generators over the same parameter array
         c['specs'].append({'t': 'fixed', 'w': 0})
         c['specs'].append({'t': 'gate', 'start': 0.003, 'dur': 0.008, 'in': {'t': 'fixed', 'w': 0}})
+    nspec = len(c['specs'])
     plan = [rng.choice(CHUNKS) for _ in range(3)]
     if mixed:
         kds = []
         for s in c['specs']:
             kds += keys_for_spec(s, plan)
-        kds = kds[:6] or [random_key(rng)]
+        kds = kds[:6] or [random_key(rng, rep)]
         c['keys'], _ = close_keys(kds)
     nk = len(c['keys'])
     pos = {}
@@ -955,12 +1588,12 @@ def gen_gen_case(rng, mixed=False):
         r = rng.random()
         g = b.gens()
         if r < 0.2 or not g:
-            o = b.new(rng.randrange(len(c['specs'])))
+            o = b.new(rng.randrange(nspec))
             pos[o] = 0
         elif r < 0.55:
             o = rng.choice(g)
-            n = plan[pos.get(o, 0) % 3] if mixed and rng.random() < 0.8 else rng.choice(CHUNKS)
-            b.op('next', o, n)
+            n = plan[pos.get(o, 0) % 3] if mixed and rng.random() < 0.8 else chunk(rng)
+            b.next(o, n)
             pos[o] = pos.get(o, 0) + 1
         elif r < 0.67:
             o = rng.choice(g)
@@ -981,13 +1614,23 @@ def gen_gen_case(rng, mixed=False):
     if rng.random() < 0.5:
         b.op('scribble')
     b.sweep()
+    if c['arrays'] and rng.random() < 0.5:
+        b.audit_arrays()
     for k in range(nk):
         b.call(k)
     return c
 
 
-_PERTURB = {'level': lambda v, r: v * r.choice([10.0, 0.1, 2.0]), 'seed': lambda v, r: v + r.choice([1, 2]),
-            'pol': lambda v, r: -v, 'phase': lambda v, r: v + 0.25, 'depth': lambda v, r: 0.75 if v != 0.75 else 0.5}
+_PERTURB = {'level': lambda v, r: v * r.choice([10.0, 0.1, 2.0]) if v else 3.0, 'seed': lambda v, r: v + r.choice([1, 2]),
+            'pol': lambda v, r: -v, 'phase': lambda v, r: v + 0.25, 'depth': lambda v, r: 0.75 if v != 0.75 else 0.5,
+            'f': lambda v, r: v + 25.0, 'fc': lambda v, r: v + 10.0, 'fm': lambda v, r: v + 10.0,
+            'fill': lambda v, r: 1 - v, 'duty': lambda v, r: 0.75 - v, 'fl': lambda v, r: v + 10.0,
+            'sa': lambda v, r: v + 10, 'ntaps': lambda v, r: v + 2, 'f2': lambda v, r: v + 20.0,
+            'f1': lambda v, r: v + 20.0, 'fh': lambda v, r: v + 20.0, 'fub': lambda v, r: v + 50.0,
+            'start': lambda v, r: v + 0.001, 'delay': lambda v, r: v + 0.002, 'dir': lambda v, r: -v,
+            'alpha': lambda v, r: v + 0.2, 'q': lambda v, r: v + 1.0, 'cal': lambda v, r: (v + 1) % 2,
+            'plb': lambda v, r: v + 0.1, 'pub': lambda v, r: v + 0.1, 'maxc': lambda v, r: v + 1.0,
+            'skip': lambda v, r: 1 - v, 'tr': lambda v, r: 'neg' if v == 'half' else 'half'}
 
 
 def perturb_spec(rng, spec):
@@ -995,11 +1638,15 @@ def perturb_spec(rng, spec):
     s = copy.deepcopy(spec)
     sites, node = [], s
     while isinstance(node, dict):
-        sites += [(node, k) for k in node if k in _PERTURB and isinstance(node[k], (int, float))]
+        sites += [(node, 'tr')] * 3 if node.get('tr') else []      # two envelopes that differ in the callable only
+        sites += [(node, k) for k in node if k in _PERTURB and isinstance(node[k], (int, float))
+                  and not isinstance(node[k], bool) and not (k == 'seed' and node[k] >= 2 ** 32 - 2)
+                  and not (k == 'f1' and node['t'] == 'shaped')]
         node = node.get('in')
     if not sites:
         return None
-    node, k = rng.choice(sites)
+    cals = [x for x in sites if x[1] == 'cal']
+    node, k = rng.choice(cals if cals and rng.random() < 0.5 else sites)    # same stimulus, other calibration object
     node[k] = _PERTURB[k](node[k], rng)
     return s
 
@@ -1010,8 +1657,18 @@ def gen_sibling_case(rng):
     b = Builder(rng, 'gen')
     c = b.case
     c['arrays'] = random_arrays(rng, rng.choice([0, 1]))
+    rep = rng.choice(REPS)
     for _ in range(20):
-        a = random_spec(rng, len(c['arrays']))
+        a = random_spec(rng, len(c['arrays']), rep=rep)
+        if rng.random() < 0.1:
+            # one file / one filter design, presented through two calibrations or at two levels
+            a = set_rep(rng.choice([
+                {'t': 'wav', 'file': rng.choice(['a16.wav', 'b16.wav']), 'norm': rng.choice(['pe', 'rms']),
+                 'level': rng.choice([0.0, 6.0]), 'cal': rng.choice([0, 1])},
+                {'t': 'blneq', 'seed': 1, 'level': 1.0, 'fl': 100.0, 'fh': 200.0, 'rolloff': 1, 'pa': 1, 'sa': 40,
+                 'cal': rng.choice([0, 1])},
+                {'t': 'env', 'window': 'hann', 'dur': 0.02, 'rise': 0.005, 'start': 0, 'tr': rng.choice(['half', 'neg']),
+                 'in': leaf_spec(rng, len(c['arrays']))}]), rep)
         sib = perturb_spec(rng, a)
         if sib is not None:
             break
@@ -1021,16 +1678,111 @@ def gen_sibling_case(rng):
     order = [0, 1] if rng.random() < 0.5 else [1, 0]
     o1 = b.new(order[0])
     for _ in range(rng.randint(0, 2)):
-        b.op('next', o1, rng.choice(CHUNKS))
+        b.next(o1, chunk(rng))
     if rng.random() < 0.5:
         b.op('reset', o1)
     o2 = b.new(order[1])
-    b.op('next', o2, rng.choice(CHUNKS))
-    b.op('next', o1, rng.choice(CHUNKS))
+    b.next(o2, chunk(rng))
+    b.next(o1, chunk(rng))
     if rng.random() < 0.5:
         b.op('reset', o2)
-        b.op('next', o2, rng.choice(CHUNKS))
+        b.next(o2, chunk(rng))
     b.sweep()
+    return c
+
+
+def gen_hist_case(rng):
+    """Unusual but legal orders on one or two generators: reset before anything was drawn / twice in a row / after
+    completion, copies taken before the first draw and of copies, empty and oversized requests, the caller
+    overwriting every chunk as soon as it gets it."""
+    b = Builder(rng, 'gen-hist')
+    c = b.case
+    c['arrays'] = random_arrays(rng, rng.choice([0, 1]), tiny=True)
+    c['adtypes'] = random_dtypes(rng, len(c['arrays']))
+    rep = rng.choice(REPS)
+    c['specs'] = [random_spec(rng, len(c['arrays']), finite=rng.random() < 0.5, rep=rep)
+                  for _ in range(rng.choice([1, 2]))]
+    objs = [b.new(0)]
+    scrib = rng.random() < 0.4
+    for _ in range(rng.randint(3, 7)):
+        o = rng.choice(objs)
+        ph = rng.choice(['reset0', 'reset2', 'finish', 'copy0', 'copycopy', 'zero', 'big', 'new', 'noise', 'draw'])
+        if ph == 'reset0':          # reset although nothing was drawn since the last reset / construction
+            b.op('reset', o)
+            b.next(o, chunk(rng))
+            b.op('reset', o)
+        elif ph == 'reset2':
+            b.next(o, chunk(rng))
+            b.op('reset', o)
+            b.op('reset', o)
+        elif ph == 'finish':        # far past the end of a finite generator, then used again
+            b.next(o, rng.choice([40, 64, 100]))
+            b.next(o, rng.choice([1, 5]))
+            b.op('reset', o)
+        elif ph == 'copy0':
+            o2 = b.new(rng.randrange(len(c['specs'])))
+            objs += [o2, b.copy(o2)]
+        elif ph == 'copycopy':
+            b.next(o, chunk(rng))
+            o2 = b.copy(o)
+            b.op('reset', o)
+            objs += [o2, b.copy(o2)]
+        elif ph == 'zero':
+            b.next(o, 0)
+            b.next(o, rng.choice([0, 1]))
+        elif ph == 'big':
+            b.next(o, rng.choice([1, 2]))
+            b.next(o, rng.choice([257, 1000, 4099]))
+            b.next(o, 1)
+        elif ph == 'new':
+            objs.append(b.new(rng.randrange(len(c['specs']))))
+        elif ph == 'noise':
+            b.noise()
+        else:
+            b.next(o, chunk(rng))
+        if scrib:
+            b.op('scribble')
+    b.sweep()
+    if c['arrays']:
+        b.audit_arrays()
+    return c
+
+
+SCALE_KINDS = ['bbn', 'bln', 'fir', 'shaped', 'blneq', 'tone', 'square', 'samtone']
+
+
+def gen_scale_case(rng, k=0):
+    """Requests far beyond the usual sizes, mixed with tiny ones, on a generator (every stateful carrier in turn,
+    bare or wrapped) and on a queue of many trials; the first one asks for 2**20 samples."""
+    b = Builder(rng, 'scale')
+    c = b.case
+    c['arrays'] = random_arrays(rng, 1)
+    big = 2 ** 20 if k == 0 else rng.choice([2 ** 16, 2 ** 16 + 1, 2 ** 17 - 3])
+    if k % 3 != 2:
+        s = leaf_spec_of(rng, SCALE_KINDS[(k - k // 3) % len(SCALE_KINDS)], 1)
+        if rng.random() < 0.5:
+            s = wrap_spec(rng, s)
+        c['specs'] = [set_rep(s, rng.choice(REPS))]
+        o = b.new(0)
+        b.next(o, rng.choice([1, 3]))
+        b.next(o, big)
+        o2 = b.copy(o)
+        b.next(o, 2)
+        b.op('scribble')
+        b.op('reset', o)
+        b.next(o, rng.choice([1, 5]))
+        b.next(o2, rng.choice([2, 2 ** 12]))
+    else:
+        c['specs'] = [random_spec(rng, 1, finite=True)]
+        q = b.qnew(rng.choice(QUEUE_KINDS), rng.choice([0, 1]))
+        g = b.new(0)
+        b.op('append', q, g, rng.choice([2000, 5000]), rng.choice([0, 1]))
+        b.op('appendw', q, 0, 3000, 0)
+        b.op('pop', q, 3)
+        b.op('pop', q, big)
+        q2 = b.clone(q)
+        b.op('pop', q, 2)
+        b.op('pop', q2, rng.choice([2, 2 ** 12]))
     return c
 
 
@@ -1038,45 +1790,75 @@ def gen_queue_case(rng):
     b = Builder(rng, 'queue')
     c = b.case
     c['arrays'] = random_arrays(rng, rng.choice([1, 2]))
-    c['specs'] = [random_spec(rng, len(c['arrays']), finite=True) for _ in range(rng.choice([1, 2]))]
+    rep = rng.choice(REPS)
+    c['specs'] = [random_spec(rng, len(c['arrays']), finite=True, rep=rep) for _ in range(rng.choice([1, 2]))]
+    nspec = len(c['specs'])
     # one more array that no factory spec refers to: appended to queues only, later overwritten by the caller
     c['arrays'] += random_arrays(rng, 1)
+    c['adtypes'] = random_dtypes(rng, len(c['arrays']))
     qonly = len(c['arrays']) - 1
     kind = rng.choice(QUEUE_KINDS)
-    q = b.qnew(kind, rng.choice([0, 1, 5]))
-    if rng.random() < 0.35:
+    q = b.qnew(kind, queue_param(rng, kind))
+    r0 = rng.random()
+    if r0 < 0.3:
         # the caller post-processes a buffer in place (buf *= gain): a buffer lying wholly inside one trial of an
         # array token must not be a window onto the queue's stored waveform
-        b.op('appendw', q, qonly, rng.choice([2, 3]), rng.choice([0, 2]))
+        b.op('appendw', q, qonly, rng.choice([2, 3]), rng.choice([0, 2]), *rng.choice(APPEND_EX))
         b.op('pop', q, rng.choice([3, 5]))
         b.op('scribble')
-        b.op('pop', q, rng.choice([3, 9, 30]))
+        b.pop(q, rng.choice([3, 9, 30]))
+    elif r0 < 0.45:
+        # unusual orders: clone / pop before anything was appended, use after the queue ran empty
+        q2 = b.clone(q)
+        b.pop(q, rng.choice([0, 4]))
+        g = b.new(rng.randrange(nspec))
+        b.op('append', q2, g, 1, 0, *rng.choice(APPEND_EX))
+        b.op('append', q, g, 1, rng.choice([0, 2]))
+        b.pop(q2, rng.choice([40, 70]))
+        b.clone(b.clone(q2))
+        b.op('append', q2, g, 2, 1)
+    elif r0 < 0.6:
+        # two queues that differ in one parameter (the seed of the blocked-random order), filled alike
+        k2 = rng.choice(['brand', 'brand', 'fifo'])
+        p = rng.choice([0, 1, 5]) if k2 == 'brand' else 102
+        q1, q2 = b.qnew(k2, p), b.qnew(k2, p + 1)
+        gs = [b.new(rng.randrange(nspec)) for _ in range(2)]
+        for qq in (q1, q2):
+            for g in gs:
+                b.op('append', qq, g, 2, 0)
+            b.op('appendw', qq, qonly, 2, 1)
+        b.op('pop', q1, rng.choice([30, 60]))
+        b.op('pop', q2, rng.choice([30, 60]))
     for _ in range(rng.randint(4, 12)):
         r = rng.random()
         g, qs = b.gens(), b.queues()
         if r < 0.15 or not g:
-            b.new(rng.randrange(len(c['specs'])))
+            b.new(rng.randrange(nspec))
         elif r < 0.35:
-            b.op('append', rng.choice(qs), rng.choice(g), rng.choice([1, 2, 3]), rng.choice([0, 0, 3]))
+            b.op('append', rng.choice(qs), rng.choice(g), rng.choice([1, 2, 3]), rng.choice([0, 0, 3]),
+                 *rng.choice(APPEND_EX))
         elif r < 0.45:
             b.op('appendw', rng.choice(qs), rng.choice([qonly, rng.randrange(len(c['arrays']))]), rng.choice([1, 2]),
-                 rng.choice([0, 2]))
+                 rng.choice([0, 2]), *rng.choice(APPEND_EX))
             if rng.random() < 0.4:
                 b.op('wwrite', qonly)
         elif r < 0.65:
-            b.op('pop', rng.choice(qs), rng.choice([3, 9, 17, 30, 45]))
+            b.pop(rng.choice(qs), rng.choice([3, 9, 17, 30, 45, 0, 1]))
         elif r < 0.75:
-            b.op('next', rng.choice(g), rng.choice(CHUNKS))   # later use of the original object
+            b.next(rng.choice(g), chunk(rng))   # later use of the original object
         elif r < 0.85:
             if rng.random() < 0.7:
                 b.clone(rng.choice(qs))
             else:
                 b.copy(rng.choice(qs))
         elif r < 0.9 and len(qs) < 3:
-            b.qnew(rng.choice(QUEUE_KINDS), rng.choice([0, 1, 5]))
+            k2 = rng.choice(QUEUE_KINDS)
+            b.qnew(k2, queue_param(rng, k2))
         else:
             b.noise()
     b.sweep()
+    if rng.random() < 0.3:
+        b.audit_arrays(skip=(qonly,))
     return c
 
 
@@ -1200,19 +1982,29 @@ class C10(Spec):
         'it is covered only by the differential histories (level: partial for that part)',
         'the abstract generator (params, offset, rng, filter) treats RandomState/lfilter/cos as deterministic '
         'functions of their explicit state; init has no global-state argument',
-        'pristine references are computed by the real library in a world with emptied memo tables '
-        '(or a forked child when the memo implementation is not recognised)',
+        'pristine references (streams and function values) and the history itself are computed by the real library '
+        'in separate forked children of harness.c10_zygote, an interpreter that imported psiaudio and never used it',
     ]
     ASSUMPTIONS = ['noise factories are given an explicit integer seed (seed=None asks NumPy for OS entropy and is '
                    'outside "seeded noise")',
                    'a factory object is not shared between two wrappers; arrays passed as parameters are not '
-                   'written by the caller']
+                   'written by the caller',
+                   'not asked for (defects recorded in notes/C10.md, hardening pass): an empty request next(0) to a '
+                   'generator with an lfilter state; one history mixing Python and NumPy scalars of the same value '
+                   'as arguments of the memoised functions']
     RULE = ('histories of 4-25 ops drawn from: memoised-function calls in the library\'s own argument forms, caller '
             'writes into returned arrays, new/next/reset/deepcopy of every constructible stim factory (nested up to '
             'depth 3), queue append/pop/clone for FIFO/interleaved/blocked/blocked-random, global np.random seed and '
             'draws, scribble over every returned array; every live object is drawn at the end. Non-trivial = the '
             'history contains at least one op the prediction must ignore or undo (mutate, scribble, seed, rand, '
-            'reset after next, copy, clone, append followed by use of the original).')
+            'reset after next, copy, clone, append followed by use of the original). Hardening pass: every '
+            'constructor keyword at a non-default value, positional/keyword spellings of every call, one number '
+            'representation per history (float / int / NumPy scalar), float32 and integer parameter arrays, empty '
+            'and 1-sample arrays, the plain function forms of the stimuli, calls and generators that differ in one '
+            'argument (incl. the calibration object or a callable), grouped and keep_complete_waveforms=False '
+            'queues, extend / keyword / metadata / iterator-delay spellings of append, pop_buffer(decrement=False), '
+            'reset before/twice/after completion, requests of 0 and of 2**16..2**20 samples, queues of thousands of '
+            'trials, a generator built over every parameter array at the end (arguments come back unmodified).')
     exhaustive_note = {
         'quick': 'memo histories: every op word of length <= 4 over {call wrapped, call wrapper, call tuple-valued, '
                  'mutate last, scribble, read first} ending in a call',
@@ -1228,14 +2020,18 @@ class C10(Spec):
             yield c
         for _ in range(150 * n):
             yield gen_cache_case(rng)
-        for _ in range(200 * n):
+        for _ in range(170 * n):
             yield gen_gen_case(rng)
-        for _ in range(150 * n):
+        for _ in range(130 * n):
             yield gen_gen_case(rng, mixed=True)
-        for _ in range(150 * n):
+        for _ in range(140 * n):
             yield gen_queue_case(rng)
-        for _ in range(60 * n):
+        for _ in range(50 * n):
             yield gen_sibling_case(rng)
+        for _ in range(50 * n):
+            yield gen_hist_case(rng)
+        for k in range(4 * n):
+            yield gen_scale_case(rng, k)
 
     # The Lean model follows the fixed code (copy on return); C10_VARIANT=alias selects the model of the
     # code as originally written, to show that it reproduces the defect position by position.
@@ -1248,8 +2044,12 @@ class C10(Spec):
             pre.append(f"key {i} {lens} {'-' if kd['inner'] is None else kd['inner']}")
         return pre
 
+    # number of words of an op the model knows; further words name the spelling of the call (same meaning)
+    ARITY = {'next': 3, 'pop': 3, 'append': 5, 'appendw': 5}
+
     def model_lines(self, c):
-        return self.preamble(c) + [' '.join(str(x) for x in op) for op in c['ops']]
+        return self.preamble(c) + [' '.join(str(x) for x in op[:self.ARITY.get(op[0] if op else None, len(op))])
+                                   for op in c['ops']]
 
     def impl_lines(self, c):
         return ['ok'] * len(self.preamble(c)) + run_history(c)
